@@ -1,6 +1,9 @@
 /-
   Helper lemmas for Props/C05.lean: invariants of the depth-first search of Model/Cycles.lean
   (distinct stack ⇒ fuel suffices; the stack is a path ⇒ every report is a closed path of fields).
+
+  The search with the skip rule (`dfs`, the code since dd206d7) and the one without (`dfsUnpruned`, the specification)
+  are both instances of `dfsG` (a search with an arbitrary skip predicate); the invariants are proved once, for `dfsG`.
 -/
 import SlicecVerif.Model.Cycles
 import SlicecVerif.Lemmas.Resolve
@@ -88,28 +91,86 @@ theorem report_reports (root : Nat) (stack : List Entry) (st : DState) :
   · exact .inl rfl
   · exact .inr rfl
 
+/-! ## the search with an arbitrary skip predicate -/
+
+/-- `push_to_stack_and_check` with a skip predicate between the "report" and the "cut" case -/
+def dfsG (E : EdgeFn) (root : Nat) (skip : Nat → Bool) : Nat → List Entry → Nat → DState → DState
+  | 0, _, _, st => { st with exhausted := true }
+  | fuel + 1, stack, cur, st =>
+    (E cur).foldl (fun st e =>
+      if e.2 == root then report root (stack ++ [⟨e.2, cur, e.1⟩]) st.tick
+      else if skip e.2 then st.tick
+      else if stack.any (fun x => x.target == e.2) then st.tick
+      else dfsG E root skip fuel (stack ++ [⟨e.2, cur, e.1⟩]) e.2 st.tick) st
+
+/-- the detector with a skip predicate per root -/
+def detectG (E : EdgeFn) (n : Nat) (skipOf : Nat → Nat → Bool) : DState :=
+  (List.range n).foldl (fun st r => dfsG E r (skipOf r) n [] r st) {}
+
+/-- the skip rule of the code: the candidate is not in `types_depending_on_checked_type` -/
+def skipDeps (deps : List Nat) : Nat → Bool := fun c => !deps.contains c
+
+theorem dfs_eq_dfsG (E : EdgeFn) (root : Nat) (deps : List Nat) :
+    ∀ fuel stack cur st, dfs E root deps fuel stack cur st = dfsG E root (skipDeps deps) fuel stack cur st := by
+  intro fuel
+  induction fuel with
+  | zero => intros; rfl
+  | succ fuel ih => intro stack cur st; simp only [dfs, dfsG, ih]; rfl
+
+theorem dfsUnpruned_eq_dfsG (E : EdgeFn) (root : Nat) :
+    ∀ fuel stack cur st, dfsUnpruned E root fuel stack cur st = dfsG E root (fun _ => false) fuel stack cur st := by
+  intro fuel
+  induction fuel with
+  | zero => intros; rfl
+  | succ fuel ih => intro stack cur st; simp only [dfsUnpruned, dfsG, ih, Bool.false_eq_true, if_false]
+
+theorem detectE_eq_detectG (E : EdgeFn) (n : Nat) :
+    detectE E n = detectG E n (fun r => skipDeps (dependsOn E n r)) := by
+  unfold detectE detectG
+  congr 1
+  funext st r
+  exact dfs_eq_dfsG ..
+
+theorem detectUnpruned_eq_detectG (E : EdgeFn) (n : Nat) : detectUnpruned E n = detectG E n (fun _ _ => false) := by
+  unfold detectUnpruned detectG
+  congr 1
+  funext st r
+  exact dfsUnpruned_eq_dfsG ..
+
 /-- unfolding of one level of the search -/
-theorem dfs_succ (E : EdgeFn) (root fuel : Nat) (stack : List Entry) (cur : Nat) (st : DState) :
-    dfs E root (fuel + 1) stack cur st =
+theorem dfs_succ (E : EdgeFn) (root : Nat) (skip : Nat → Bool) (fuel : Nat) (stack : List Entry) (cur : Nat) (st : DState) :
+    dfsG E root skip (fuel + 1) stack cur st =
       (E cur).foldl (fun st e =>
         if e.2 == root then report root (stack ++ [⟨e.2, cur, e.1⟩]) st.tick
+        else if skip e.2 then st.tick
         else if stack.any (fun x => x.target == e.2) then st.tick
-        else dfs E root fuel (stack ++ [⟨e.2, cur, e.1⟩]) e.2 st.tick) st := rfl
+        else dfsG E root skip fuel (stack ++ [⟨e.2, cur, e.1⟩]) e.2 st.tick) st := rfl
+
+/-- one iteration of the loop over the edges of `cur` (search without the skip rule) -/
+def stepFn (E : EdgeFn) (root fuel : Nat) (stack : List Entry) (cur : Nat) : DState → Nat × Nat → DState :=
+  fun st e =>
+    if e.2 == root then report root (stack ++ [⟨e.2, cur, e.1⟩]) st.tick
+    else if stack.any (fun x => x.target == e.2) then st.tick
+    else dfsG E root (fun _ => false) fuel (stack ++ [⟨e.2, cur, e.1⟩]) e.2 st.tick
+
+theorem dfs_succ' (E : EdgeFn) (root fuel : Nat) (stack : List Entry) (cur : Nat) (st : DState) :
+    dfsG E root (fun _ => false) (fuel + 1) stack cur st = (E cur).foldl (stepFn E root fuel stack cur) st := by
+  rw [dfs_succ]; rfl
 
 /-! ## a general induction principle for the search
 
   `P stack cur` is an invariant of the (stack, current node) pairs the search visits, `Q` an invariant of the state.
   If pushing an edge of `cur` that is neither the root nor on the stack keeps `P`, and the three cases keep `Q`, then the
   whole search keeps `Q`. -/
-theorem dfs_induct (E : EdgeFn) (root : Nat)
+theorem dfs_induct (E : EdgeFn) (root : Nat) (skip : Nat → Bool)
     (P : Nat → List Entry → Nat → Prop) (Q : DState → Prop)
-    (hpush : ∀ fuel stack cur e, P (fuel + 1) stack cur → e ∈ E cur → e.2 ≠ root →
+    (hpush : ∀ fuel stack cur e, P (fuel + 1) stack cur → e ∈ E cur → e.2 ≠ root → skip e.2 = false →
       stack.any (fun x => x.target == e.2) = false → P fuel (stack ++ [⟨e.2, cur, e.1⟩]) e.2)
     (htick : ∀ st, Q st → Q st.tick)
     (hreport : ∀ fuel stack cur e st, P (fuel + 1) stack cur → e ∈ E cur → e.2 = root → Q st →
       Q (report root (stack ++ [⟨e.2, cur, e.1⟩]) st))
     (hfuel : ∀ stack cur st, P 0 stack cur → Q st → Q { st with exhausted := true }) :
-    ∀ fuel stack cur st, P fuel stack cur → Q st → Q (dfs E root fuel stack cur st) := by
+    ∀ fuel stack cur st, P fuel stack cur → Q st → Q (dfsG E root skip fuel stack cur st) := by
   intro fuel
   induction fuel with
   | zero => intro stack cur st hP hQ; exact hfuel stack cur st hP hQ
@@ -119,8 +180,9 @@ theorem dfs_induct (E : EdgeFn) (root : Nat)
     have key : ∀ (es : List (Nat × Nat)), (∀ e ∈ es, e ∈ E cur) → ∀ st, Q st →
         Q (es.foldl (fun st e =>
           if e.2 == root then report root (stack ++ [⟨e.2, cur, e.1⟩]) st.tick
+          else if skip e.2 then st.tick
           else if stack.any (fun x => x.target == e.2) then st.tick
-          else dfs E root fuel (stack ++ [⟨e.2, cur, e.1⟩]) e.2 st.tick) st) := by
+          else dfsG E root skip fuel (stack ++ [⟨e.2, cur, e.1⟩]) e.2 st.tick) st) := by
       intro es
       induction es with
       | nil => intro _ st hQ; exact hQ
@@ -135,20 +197,24 @@ theorem dfs_induct (E : EdgeFn) (root : Nat)
           rw [h1] at this; exact this
         · have h1' : (e.2 == root) = false := by simpa using h1
           simp only [h1', Bool.false_eq_true, if_false]
-          cases h2 : stack.any (fun x => x.target == e.2) with
+          cases h3 : skip e.2 with
           | true => simp only [if_true]; exact htick st hQ
           | false =>
             simp only [Bool.false_eq_true, if_false]
-            exact ih _ _ _ (hpush fuel stack cur e hP he h1 h2) (htick st hQ)
+            cases h2 : stack.any (fun x => x.target == e.2) with
+            | true => simp only [if_true]; exact htick st hQ
+            | false =>
+              simp only [Bool.false_eq_true, if_false]
+              exact ih _ _ _ (hpush fuel stack cur e hP he h1 h3 h2) (htick st hQ)
     exact key (E cur) (fun _ h => h) st hQ
 
 /-- the same principle for the whole detector -/
-theorem detectE_induct (E : EdgeFn) (n : Nat) (Q : DState → Prop)
+theorem detectG_induct (E : EdgeFn) (n : Nat) (skipOf : Nat → Nat → Bool) (Q : DState → Prop)
     (h0 : Q {})
-    (hroot : ∀ r st, r < n → Q st → Q (dfs E r n [] r st)) :
-    Q (detectE E n) := by
-  unfold detectE
-  have key : ∀ (rs : List Nat), (∀ r ∈ rs, r < n) → ∀ st, Q st → Q (rs.foldl (fun st r => dfs E r n [] r st) st) := by
+    (hroot : ∀ r st, r < n → Q st → Q (dfsG E r (skipOf r) n [] r st)) :
+    Q (detectG E n skipOf) := by
+  unfold detectG
+  have key : ∀ (rs : List Nat), (∀ r ∈ rs, r < n) → ∀ st, Q st → Q (rs.foldl (fun st r => dfsG E r (skipOf r) n [] r st) st) := by
     intro rs
     induction rs with
     | nil => intro _ st h; exact h
@@ -229,12 +295,12 @@ theorem lastTarget_append (prev : Nat) (s : List Entry) (e : Entry) : lastTarget
 def SoundReport (E : EdgeFn) (r : Report) : Prop :=
   r.stack ≠ [] ∧ Linked E r.root r.stack ∧ lastTarget r.root r.stack = r.root
 
-theorem dfs_reports_sound (E : EdgeFn) (root fuel : Nat) (st : DState)
+theorem dfs_reports_sound (E : EdgeFn) (root : Nat) (skip : Nat → Bool) (fuel : Nat) (st : DState)
     (h : ∀ r ∈ st.reports, SoundReport E r) :
-    ∀ r ∈ (dfs E root fuel [] root st).reports, SoundReport E r := by
-  refine dfs_induct E root (fun _ stack cur => Linked E root stack ∧ lastTarget root stack = cur)
+    ∀ r ∈ (dfsG E root skip fuel [] root st).reports, SoundReport E r := by
+  refine dfs_induct E root skip (fun _ stack cur => Linked E root stack ∧ lastTarget root stack = cur)
     (fun st => ∀ r ∈ st.reports, SoundReport E r) ?_ ?_ ?_ ?_ fuel [] root st ⟨trivial, rfl⟩ h
-  · intro _ stack cur e ⟨hl, hlast⟩ he _ _
+  · intro _ stack cur e ⟨hl, hlast⟩ he _ _ _
     refine ⟨(linked_append ..).2 ⟨hl, by simp [hlast], by simpa [hlast] using he⟩, lastTarget_append ..⟩
   · intro st h; simpa using h
   · intro _ stack cur e st ⟨hl, hlast⟩ he hroot hQ r hr
@@ -264,17 +330,17 @@ theorem SoundReport.reach {E : EdgeFn} {r : Report} (h : SoundReport E r) : ERea
   rw [h.2.2] at this
   exact this
 
-/-! ## interface inheritance -/
+/-! ## interface inheritance: the definition before 323593c -/
 
-theorem allBases_fold_none (ig : IGraph) (fuel : Nat) (bs : List Nat) :
-    bs.foldl (fun acc b => joinBases acc (allBases ig fuel b)) none = none := by
+theorem allBasesSpec_fold_none (ig : IGraph) (fuel : Nat) (bs : List Nat) :
+    bs.foldl (fun acc b => joinBases acc (allBasesSpec ig fuel b)) none = none := by
   induction bs with
   | nil => rfl
   | cons b bs ih => simpa [List.foldl_cons, joinBases] using ih
 
-theorem allBases_fold_none_of_mem (ig : IGraph) (fuel : Nat) (bs : List Nat) (acc : Option (List Nat))
-    (h : ∃ b ∈ bs, allBases ig fuel b = none) :
-    bs.foldl (fun acc b => joinBases acc (allBases ig fuel b)) acc = none := by
+theorem allBasesSpec_fold_none_of_mem (ig : IGraph) (fuel : Nat) (bs : List Nat) (acc : Option (List Nat))
+    (h : ∃ b ∈ bs, allBasesSpec ig fuel b = none) :
+    bs.foldl (fun acc b => joinBases acc (allBasesSpec ig fuel b)) acc = none := by
   induction bs generalizing acc with
   | nil => obtain ⟨b, hb, _⟩ := h; cases hb
   | cons x xs ih =>
@@ -283,18 +349,18 @@ theorem allBases_fold_none_of_mem (ig : IGraph) (fuel : Nat) (bs : List Nat) (ac
     rcases List.mem_cons.1 hb with rfl | hb
     · rw [hnone]
       have : joinBases acc none = none := by cases acc <;> rfl
-      rw [this]; exact allBases_fold_none ig fuel xs
+      rw [this]; exact allBasesSpec_fold_none ig fuel xs
     · exact ih _ ⟨b, hb, hnone⟩
 
-/-! ## (c) D-05b: the search enumerates every simple path — exponential on dense DAGs -/
+/-! ## (c) D-05b: WITHOUT the skip rule the search enumerates every simple path — exponential on dense DAGs -/
 
 theorem report_steps (root : Nat) (stack : List Entry) (st : DState) : (report root stack st).steps = st.steps := by
   unfold report; split <;> rfl
 
 /-- the search never decreases the step counter -/
-theorem dfs_steps_mono (E : EdgeFn) (root fuel : Nat) (stack : List Entry) (cur : Nat) (st : DState) (c : Nat)
-    (h : c ≤ st.steps) : c ≤ (dfs E root fuel stack cur st).steps := by
-  refine dfs_induct E root (fun _ _ _ => True) (fun st => c ≤ st.steps) ?_ ?_ ?_ ?_ fuel stack cur st trivial h
+theorem dfs_steps_mono (E : EdgeFn) (root : Nat) (skip : Nat → Bool) (fuel : Nat) (stack : List Entry) (cur : Nat)
+    (st : DState) (c : Nat) (h : c ≤ st.steps) : c ≤ (dfsG E root skip fuel stack cur st).steps := by
+  refine dfs_induct E root skip (fun _ _ _ => True) (fun st => c ≤ st.steps) ?_ ?_ ?_ ?_ fuel stack cur st trivial h
   · intros; trivial
   · intro st h; simp only [tick_steps]; omega
   · intro _ _ _ _ st _ _ _ h; rw [report_steps]; exact h
@@ -307,19 +373,16 @@ def DenseOn (E : EdgeFn) (n : Nat) : Prop := ∀ k, k < n → (E k).map (·.2) =
 theorem dense_dfs_steps (E : EdgeFn) (n root : Nat) (hE : DenseOn E n) :
     ∀ (fuel : Nat) (stack : List Entry) (k m : Nat) (st : DState),
       k + 1 + m = n → m < fuel → root ≤ k → (∀ x ∈ stack, x.target ≤ k) →
-      (dfs E root fuel stack k st).steps + 1 = st.steps + 2 ^ m := by
+      (dfsG E root (fun _ => false) fuel stack k st).steps + 1 = st.steps + 2 ^ m := by
   intro fuel
   induction fuel with
   | zero => intro _ _ _ _ _ h; omega
   | succ fuel ih =>
     intro stack k m st hkm hfuel hroot hstack
-    rw [dfs_succ]
+    rw [dfs_succ']
     have key : ∀ (es : List (Nat × Nat)) (a m' : Nat) (st : DState),
         es.map (·.2) = List.range' a m' → k < a → a + m' = n →
-        (es.foldl (fun st e =>
-          if e.2 == root then report root (stack ++ [⟨e.2, k, e.1⟩]) st.tick
-          else if stack.any (fun x => x.target == e.2) then st.tick
-          else dfs E root fuel (stack ++ [⟨e.2, k, e.1⟩]) e.2 st.tick) st).steps + 1 = st.steps + 2 ^ m' := by
+        (es.foldl (stepFn E root fuel stack k) st).steps + 1 = st.steps + 2 ^ m' := by
       intro es
       induction es with
       | nil =>
@@ -347,14 +410,17 @@ theorem dense_dfs_steps (E : EdgeFn) (n root : Nat) (hE : DenseOn E n) :
             have := hstack x hx
             have : x.target ≠ e.2 := by omega
             simpa using this
-          simp only [h1, h2, Bool.false_eq_true, if_false]
+          have hstep : stepFn E root fuel stack k st e =
+              dfsG E root (fun _ => false) fuel (stack ++ [⟨e.2, k, e.1⟩]) e.2 st.tick := by
+            simp only [stepFn, h1, h2, Bool.false_eq_true, if_false]
+          rw [hstep]
           have hrec := ih (stack ++ [⟨e.2, k, e.1⟩]) e.2 q st.tick (by omega) (by omega) (by omega)
             (by
               intro x hx
               rcases List.mem_append.1 hx with hx | hx
               · have := hstack x hx; omega
               · simp only [List.mem_singleton] at hx; subst hx; exact Nat.le_refl _)
-          have hfold := ihes (a + 1) q (dfs E root fuel (stack ++ [⟨e.2, k, e.1⟩]) e.2 st.tick) hrest (by omega) (by omega)
+          have hfold := ihes (a + 1) q (dfsG E root (fun _ => false) fuel (stack ++ [⟨e.2, k, e.1⟩]) e.2 st.tick) hrest (by omega) (by omega)
           rw [tick_steps] at hrec
           rw [Nat.pow_succ]
           omega
@@ -362,20 +428,23 @@ theorem dense_dfs_steps (E : EdgeFn) (n root : Nat) (hE : DenseOn E n) :
     exact this
 
 /-- D-05b: on the dense DAG over `n ≥ 1` nodes (node `i` has a field of every node `j > i`; acyclic, nothing to report)
-    the detector makes at least `2^(n-1) - 1` calls of `push_to_stack_and_check`: the search from the first node alone
-    walks every path. -/
+    the detector WITHOUT the skip rule makes at least `2^(n-1) - 1` calls of `push_to_stack_and_check`: the search from
+    the first node alone walks every path. -/
 theorem dense_steps_exponential_E (E : EdgeFn) (n : Nat) (hE : DenseOn E (n + 1)) :
-    2 ^ n ≤ (detectE E (n + 1)).steps + 1 := by
-  unfold detectE
+    2 ^ n ≤ (detectUnpruned E (n + 1)).steps + 1 := by
+  rw [detectUnpruned_eq_detectG]
+  unfold detectG
   rw [List.range_succ_eq_map, List.foldl_cons]
+  show 2 ^ n ≤ (((List.range n).map Nat.succ).foldl (fun st r => dfsG E r (fun _ => false) (n + 1) [] r st)
+    (dfsG E 0 (fun _ => false) (n + 1) [] 0 {})).steps + 1
   have h0 := dense_dfs_steps E (n + 1) 0 hE (n + 1) [] 0 n {} (by omega) (by omega) (Nat.le_refl _) (by intro x hx; cases hx)
   have hmono : ∀ (rs : List Nat) (st : DState) (c : Nat), c ≤ st.steps →
-      c ≤ (rs.foldl (fun st r => dfs E r (n + 1) [] r st) st).steps := by
+      c ≤ (rs.foldl (fun st r => dfsG E r (fun _ => false) (n + 1) [] r st) st).steps := by
     intro rs
     induction rs with
     | nil => intro st c h; exact h
-    | cons r rs ih => intro st c h; rw [List.foldl_cons]; exact ih _ c (dfs_steps_mono E r (n + 1) [] r st c h)
-  have := hmono ((List.range n).map Nat.succ) (dfs E 0 (n + 1) [] 0 {}) ((dfs E 0 (n + 1) [] 0 {}).steps) (Nat.le_refl _)
+    | cons r rs ih => intro st c h; rw [List.foldl_cons]; exact ih _ c (dfs_steps_mono E r _ (n + 1) [] r st c h)
+  have := hmono ((List.range n).map Nat.succ) (dfsG E 0 (fun _ => false) (n + 1) [] 0 {}) ((dfsG E 0 (fun _ => false) (n + 1) [] 0 {}).steps) (Nat.le_refl _)
   have hz : ({} : DState).steps = 0 := rfl
   omega
 
@@ -430,23 +499,13 @@ theorem report_seen_has (root : Nat) (stack : List Entry) (st : DState) :
     exact ⟨K, hK, hs⟩
   · exact ⟨_, List.mem_cons_self .., sameSet_refl _⟩
 
-theorem dfs_seen_mono (E : EdgeFn) (root fuel : Nat) (stack : List Entry) (cur : Nat) (st : DState) (K : List Nat)
-    (h : K ∈ st.seen) : K ∈ (dfs E root fuel stack cur st).seen := by
-  refine dfs_induct E root (fun _ _ _ => True) (fun st => K ∈ st.seen) ?_ ?_ ?_ ?_ fuel stack cur st trivial h
+theorem dfs_seen_mono (E : EdgeFn) (root : Nat) (skip : Nat → Bool) (fuel : Nat) (stack : List Entry) (cur : Nat)
+    (st : DState) (K : List Nat) (h : K ∈ st.seen) : K ∈ (dfsG E root skip fuel stack cur st).seen := by
+  refine dfs_induct E root skip (fun _ _ _ => True) (fun st => K ∈ st.seen) ?_ ?_ ?_ ?_ fuel stack cur st trivial h
   · intros; trivial
   · intro st h; exact h
   · intro _ _ _ _ st _ _ _ h; exact report_seen_mono _ _ _ _ h
   · intro _ _ st _ h; exact h
-
-/-- one iteration of the loop over the edges of `cur` -/
-def stepFn (E : EdgeFn) (root fuel : Nat) (stack : List Entry) (cur : Nat) : DState → Nat × Nat → DState :=
-  fun st e =>
-    if e.2 == root then report root (stack ++ [⟨e.2, cur, e.1⟩]) st.tick
-    else if stack.any (fun x => x.target == e.2) then st.tick
-    else dfs E root fuel (stack ++ [⟨e.2, cur, e.1⟩]) e.2 st.tick
-
-theorem dfs_succ' (E : EdgeFn) (root fuel : Nat) (stack : List Entry) (cur : Nat) (st : DState) :
-    dfs E root (fuel + 1) stack cur st = (E cur).foldl (stepFn E root fuel stack cur) st := rfl
 
 theorem stepFn_seen_mono (E : EdgeFn) (root fuel : Nat) (stack : List Entry) (cur : Nat) (st : DState) (e : Nat × Nat)
     (K : List Nat) (h : K ∈ st.seen) : K ∈ (stepFn E root fuel stack cur st e).seen := by
@@ -455,7 +514,7 @@ theorem stepFn_seen_mono (E : EdgeFn) (root fuel : Nat) (stack : List Entry) (cu
   · exact report_seen_mono _ _ _ _ h
   · split
     · exact h
-    · exact dfs_seen_mono _ _ _ _ _ _ _ h
+    · exact dfs_seen_mono _ _ _ _ _ _ _ _ h
 
 theorem fold_seen_mono (E : EdgeFn) (root fuel : Nat) (stack : List Entry) (cur : Nat) (es : List (Nat × Nat)) :
     ∀ (st : DState) (K : List Nat), K ∈ st.seen → K ∈ (es.foldl (stepFn E root fuel stack cur) st).seen := by
@@ -475,7 +534,7 @@ theorem dfs_explores (E : EdgeFn) (n root : Nat) (hE : ∀ a e, e ∈ E a → e.
     ∀ (ws : List Nat) (fuel : Nat) (stack : List Entry) (cur : Nat) (st : DState),
       StackInv n root stack → n ≤ stack.length + fuel → PathToRoot E root cur ws → ws.Nodup →
       (∀ w ∈ ws, w ∉ stack.map (·.target)) →
-      ∃ K ∈ (dfs E root fuel stack cur st).seen, sameSet (stack.map (·.target) ++ ws) K = true := by
+      ∃ K ∈ (dfsG E root (fun _ => false) fuel stack cur st).seen, sameSet (stack.map (·.target) ++ ws) K = true := by
   intro ws
   induction ws with
   | nil => intro _ _ _ _ _ _ hp; exact absurd hp (by simp [PathToRoot])
@@ -537,42 +596,44 @@ theorem report_seenInv (root : Nat) (stack : List Entry) (st : DState) (h : Seen
     · obtain ⟨r, hr, hrK⟩ := h K hK
       exact ⟨r, List.mem_append_left _ hr, hrK⟩
 
-theorem dfs_seenInv (E : EdgeFn) (root fuel : Nat) (stack : List Entry) (cur : Nat) (st : DState) (h : SeenInv st) :
-    SeenInv (dfs E root fuel stack cur st) := by
-  refine dfs_induct E root (fun _ _ _ => True) SeenInv ?_ ?_ ?_ ?_ fuel stack cur st trivial h
+theorem dfs_seenInv (E : EdgeFn) (root : Nat) (skip : Nat → Bool) (fuel : Nat) (stack : List Entry) (cur : Nat)
+    (st : DState) (h : SeenInv st) : SeenInv (dfsG E root skip fuel stack cur st) := by
+  refine dfs_induct E root skip (fun _ _ _ => True) SeenInv ?_ ?_ ?_ ?_ fuel stack cur st trivial h
   · intros; trivial
   · intro st h; exact h
   · intro _ _ _ _ st _ _ _ h; exact report_seenInv _ _ _ h
   · intro _ _ st _ h; exact h
 
-theorem detectE_seenInv (E : EdgeFn) (n : Nat) : SeenInv (detectE E n) :=
-  detectE_induct E n SeenInv (by intro K hK; cases hK) (fun r st _ h => dfs_seenInv E r n [] r st h)
+theorem detectG_seenInv (E : EdgeFn) (n : Nat) (skipOf : Nat → Nat → Bool) : SeenInv (detectG E n skipOf) :=
+  detectG_induct E n skipOf SeenInv (by intro K hK; cases hK) (fun r st _ h => dfs_seenInv E r _ n [] r st h)
 
-theorem roots_seen_mono (E : EdgeFn) (n : Nat) (rs : List Nat) :
-    ∀ (st : DState) (K : List Nat), K ∈ st.seen → K ∈ (rs.foldl (fun st r => dfs E r n [] r st) st).seen := by
+theorem roots_seen_mono (E : EdgeFn) (n : Nat) (skipOf : Nat → Nat → Bool) (rs : List Nat) :
+    ∀ (st : DState) (K : List Nat), K ∈ st.seen → K ∈ (rs.foldl (fun st r => dfsG E r (skipOf r) n [] r st) st).seen := by
   induction rs with
   | nil => intro st K h; exact h
-  | cons r rs ih => intro st K h; rw [List.foldl_cons]; exact ih _ K (dfs_seen_mono _ _ _ _ _ _ K h)
+  | cons r rs ih => intro st K h; rw [List.foldl_cons]; exact ih _ K (dfs_seen_mono _ _ _ _ _ _ _ K h)
 
 theorem sameSet_mem {a b : List Nat} (h : sameSet a b = true) {w : Nat} (hw : w ∈ a) : w ∈ b := by
   simp only [sameSet, Bool.and_eq_true, List.all_eq_true] at h
   simpa using h.1 w hw
 
-/-- completeness for simple cycles: if `T → w₁ → … → w_m = T` is a simple cycle, some diagnostic's chain passes through
-    every one of its types -/
-theorem detect_complete_simple (E : EdgeFn) (n : Nat) (hE : ∀ a e, e ∈ E a → e.2 < n) (T : Nat) (hT : T < n)
+/-- completeness for simple cycles (search without the skip rule; carried over to the code's search by
+    `detect_reports_eq`): if `T → w₁ → … → w_m = T` is a simple cycle, some diagnostic's chain passes through every one of
+    its types -/
+theorem detectU_complete_simple (E : EdgeFn) (n : Nat) (hE : ∀ a e, e ∈ E a → e.2 < n) (T : Nat) (hT : T < n)
     (ws : List Nat) (hp : PathToRoot E T T ws) (hnd : ws.Nodup) :
-    ∃ r ∈ (detectE E n).reports, ∀ w ∈ ws, w ∈ r.ids := by
+    ∃ r ∈ (detectUnpruned E n).reports, ∀ w ∈ ws, w ∈ r.ids := by
+  rw [detectUnpruned_eq_detectG]
   have hmem : T ∈ List.range n := List.mem_range.2 hT
   obtain ⟨pre, post, hsplit⟩ := List.append_of_mem hmem
-  have hseen : ∃ K ∈ (detectE E n).seen, sameSet ws K = true := by
-    unfold detectE
+  have hseen : ∃ K ∈ (detectG E n (fun _ _ => false)).seen, sameSet ws K = true := by
+    unfold detectG
     rw [hsplit, List.foldl_append, List.foldl_cons]
-    generalize pre.foldl (fun st r => dfs E r n [] r st) {} = st1
+    generalize pre.foldl (fun st r => dfsG E r (fun _ => false) n [] r st) {} = st1
     obtain ⟨K, hK, hs⟩ := dfs_explores E n T hE ws n [] T st1 ⟨by simp, by simpa using hT⟩ (by simp) hp hnd (by simp)
-    exact ⟨K, roots_seen_mono E n post _ K hK, by simpa using hs⟩
+    exact ⟨K, roots_seen_mono E n _ post _ K hK, by simpa using hs⟩
   obtain ⟨K, hK, hs⟩ := hseen
-  obtain ⟨r, hr, hrK⟩ := detectE_seenInv E n K hK
+  obtain ⟨r, hr, hrK⟩ := detectG_seenInv E n _ K hK
   exact ⟨r, hr, fun w hw => by rw [hrK]; exact sameSet_mem hs hw⟩
 
 /-! ## loop erasure: a closed walk through `a` contains a simple cycle through `a` -/
@@ -631,12 +692,1464 @@ theorem pathToRoot_root_mem (E : EdgeFn) (n root : Nat) (hE : ∀ a e, e ∈ E a
       exact ⟨List.mem_cons_of_mem _ hm, hlt⟩
 
 /-- completeness: a type that contains itself is passed through by the chain of some diagnostic -/
-theorem detect_complete (E : EdgeFn) (n : Nat) (hE : ∀ a e, e ∈ E a → e.2 < n) (a : Nat) (h : EReach E a a) :
-    ∃ r ∈ (detectE E n).reports, a ∈ r.ids := by
+theorem detectU_complete (E : EdgeFn) (n : Nat) (hE : ∀ a e, e ∈ E a → e.2 < n) (a : Nat) (h : EReach E a a) :
+    ∃ r ∈ (detectUnpruned E n).reports, a ∈ r.ids := by
   obtain ⟨ws, hp, hnd⟩ := reach_simple E h
   obtain ⟨hmem, hlt⟩ := pathToRoot_root_mem E n a hE ws a hp
-  obtain ⟨r, hr, hall⟩ := detect_complete_simple E n hE a hlt ws hp hnd
+  obtain ⟨r, hr, hall⟩ := detectU_complete_simple E n hE a hlt ws hp hnd
   exact ⟨r, hr, hall a hmem⟩
 
+/-! ## reachability -/
+
+theorem EReach.trans {E : EdgeFn} {a b c : Nat} (h1 : EReach E a b) (h2 : EReach E b c) : EReach E a c := by
+  induction h1 with
+  | single hs => exact .cons hs h2
+  | cons hs _ ih => exact .cons hs (ih h2)
+
+theorem EReach.snoc {E : EdgeFn} {a b c : Nat} (h1 : EReach E a b) (h2 : EStep E b c) : EReach E a c :=
+  h1.trans (.single h2)
+
+/-- first step of a path -/
+theorem EReach.head {E : EdgeFn} {a c : Nat} (h : EReach E a c) : ∃ b, EStep E a b ∧ (b = c ∨ EReach E b c) := by
+  cases h with
+  | single hs => exact ⟨c, hs, .inl rfl⟩
+  | cons hs hr => exact ⟨_, hs, .inr hr⟩
+
+/-- last step of a path -/
+theorem EReach.last {E : EdgeFn} {a c : Nat} (h : EReach E a c) : ∃ b, EStep E b c ∧ (a = b ∨ EReach E a b) := by
+  induction h with
+  | single hs => exact ⟨_, hs, .inl rfl⟩
+  | @cons a b c hs _ ih =>
+    obtain ⟨d, hd, h⟩ := ih
+    refine ⟨d, hd, .inr ?_⟩
+    rcases h with rfl | h
+    · exact .single hs
+    · exact .cons hs h
+
+/-! ## `types_depending_on_checked_type` is reverse reachability -/
+
+theorem mem_dependents (E : EdgeFn) (n t c : Nat) : c ∈ dependents E n t ↔ c < n ∧ EStep E c t := by
+  unfold dependents EStep
+  simp only [List.mem_flatMap, List.mem_range, List.mem_map, List.mem_filter, beq_iff_eq]
+  constructor
+  · rintro ⟨c', hc', e, ⟨he, rfl⟩, rfl⟩
+    exact ⟨hc', e.1, he⟩
+  · rintro ⟨hc, f, hf⟩
+    exact ⟨c, hc, (f, t), ⟨hf, rfl⟩, rfl⟩
+
+/-- what the inner loop `for dependent in dependents[type_id]` does to (pending, set) -/
+theorem depVisit_fold (ds : List Nat) :
+    ∀ (p s : List Nat), s.Nodup →
+      let r := ds.foldl depVisit (p, s)
+      r.2.Nodup ∧ (∃ new, r.1 = new ++ p ∧ r.2 = new ++ s ∧ ∀ x ∈ new, x ∈ ds) ∧ (∀ d ∈ ds, d ∈ r.2) := by
+  induction ds with
+  | nil => intro p s hs; exact ⟨hs, ⟨[], rfl, rfl, by simp⟩, by simp⟩
+  | cons d ds ih =>
+    intro p s hs
+    rw [List.foldl_cons]
+    by_cases hd : d ∈ s
+    · have : depVisit (p, s) d = (p, s) := by simp [depVisit, hd]
+      rw [this]
+      obtain ⟨h1, ⟨new, h2, h3, h4⟩, h5⟩ := ih p s hs
+      refine ⟨h1, ⟨new, h2, h3, fun x hx => List.mem_cons_of_mem _ (h4 x hx)⟩, ?_⟩
+      intro x hx
+      rcases List.mem_cons.1 hx with rfl | hx
+      · rw [h3]; exact List.mem_append_right _ hd
+      · exact h5 x hx
+    · have : depVisit (p, s) d = (d :: p, d :: s) := by simp [depVisit, hd]
+      rw [this]
+      obtain ⟨h1, ⟨new, h2, h3, h4⟩, h5⟩ := ih (d :: p) (d :: s) (List.nodup_cons.2 ⟨hd, hs⟩)
+      refine ⟨h1, ⟨new ++ [d], by simp [h2], by simp [h3], ?_⟩, ?_⟩
+      · intro x hx
+        rcases List.mem_append.1 hx with hx | hx
+        · exact List.mem_cons_of_mem _ (h4 x hx)
+        · simp only [List.mem_singleton] at hx; subst hx; exact List.mem_cons_self ..
+      · intro x hx
+        rcases List.mem_cons.1 hx with rfl | hx
+        · rw [h3]; exact List.mem_append_right _ (List.mem_cons_self ..)
+        · exact h5 x hx
+
+/-- invariant of the worklist loop: the set holds distinct nodes that reach the root; pending nodes are the root or in
+    the set; every node of `root :: set` that is no longer pending has all its dependents in the set; the fuel covers the
+    remaining pops -/
+structure DepInv (E : EdgeFn) (n root fuel : Nat) (pending set : List Nat) : Prop where
+  nodup : set.Nodup
+  sound : ∀ x ∈ set, x < n ∧ EReach E x root
+  pend : ∀ x ∈ pending, x = root ∨ x ∈ set
+  closed : ∀ y, y = root ∨ y ∈ set → y ∈ pending ∨ ∀ d ∈ dependents E n y, d ∈ set
+  fuel : pending.length + n ≤ fuel + set.length
+
+theorem depLoop_spec (E : EdgeFn) (n root : Nat) :
+    ∀ (fuel : Nat) (pending set : List Nat), DepInv E n root fuel pending set →
+      (∀ x ∈ depLoop (dependents E n) fuel pending set, x < n ∧ EReach E x root) ∧
+      (∀ y, y = root ∨ y ∈ depLoop (dependents E n) fuel pending set →
+        ∀ d ∈ dependents E n y, d ∈ depLoop (dependents E n) fuel pending set) := by
+  intro fuel
+  induction fuel with
+  | zero =>
+    intro pending set inv
+    have hlen : set.length ≤ n := by
+      have := List.Nodup.length_le_of_subset inv.nodup (fun x hx => List.mem_range.2 (inv.sound x hx).1)
+      simpa using this
+    have hp : pending = [] := by
+      cases pending with
+      | nil => rfl
+      | cons _ _ => have := inv.fuel; simp only [List.length_cons] at this; omega
+    subst hp
+    refine ⟨inv.sound, fun y hy => ?_⟩
+    rcases inv.closed y hy with h | h
+    · cases h
+    · exact h
+  | succ fuel ih =>
+    intro pending set inv
+    cases pending with
+    | nil =>
+      refine ⟨inv.sound, fun y hy => ?_⟩
+      rcases inv.closed y hy with h | h
+      · cases h
+      · exact h
+    | cons t pending =>
+      simp only [depLoop]
+      obtain ⟨hnd, ⟨new, hp, hs, hnew⟩, hall⟩ := depVisit_fold (dependents E n t) pending set inv.nodup
+      apply ih
+      rw [hp, hs]
+      have ht : t = root ∨ t ∈ set := inv.pend t (List.mem_cons_self ..)
+      have hnew' : ∀ x ∈ new, x < n ∧ EReach E x root := by
+        intro x hx
+        obtain ⟨hlt, hstep⟩ := (mem_dependents E n t x).1 (hnew x hx)
+        refine ⟨hlt, ?_⟩
+        rcases ht with rfl | ht
+        · exact .single hstep
+        · exact .cons hstep (inv.sound t ht).2
+      constructor
+      · rw [← hs]; exact hnd
+      · intro x hx
+        rcases List.mem_append.1 hx with hx | hx
+        · exact hnew' x hx
+        · exact inv.sound x hx
+      · intro x hx
+        rcases List.mem_append.1 hx with hx | hx
+        · exact .inr (List.mem_append_left _ hx)
+        · rcases inv.pend x (List.mem_cons_of_mem _ hx) with h | h
+          · exact .inl h
+          · exact .inr (List.mem_append_right _ h)
+      · intro y hy
+        by_cases hyt : y = t
+        · subst hyt
+          right; intro d hd; rw [← hs]; exact hall d hd
+        · have hy' : y = root ∨ y ∈ set ∨ y ∈ new := by
+            rcases hy with h | h
+            · exact .inl h
+            · rcases List.mem_append.1 h with h | h
+              · exact .inr (.inr h)
+              · exact .inr (.inl h)
+          rcases hy' with h | h | h
+          · rcases inv.closed y (.inl h) with h' | h'
+            · rcases List.mem_cons.1 h' with h'' | h''
+              · exact absurd h'' hyt
+              · exact .inl (List.mem_append_right _ h'')
+            · exact .inr fun d hd => List.mem_append_right _ (h' d hd)
+          · rcases inv.closed y (.inr h) with h' | h'
+            · rcases List.mem_cons.1 h' with h'' | h''
+              · exact absurd h'' hyt
+              · exact .inl (List.mem_append_right _ h'')
+            · exact .inr fun d hd => List.mem_append_right _ (h' d hd)
+          · exact .inl (List.mem_append_left _ h)
+      · have := inv.fuel
+        simp only [List.length_cons, List.length_append] at this ⊢
+        omega
+
+theorem dependsOn_inv (E : EdgeFn) (n root : Nat) : DepInv E n root (n + 1) [root] [] :=
+  { nodup := List.nodup_nil
+    sound := by intro x hx; cases hx
+    pend := by intro x hx; simp only [List.mem_singleton] at hx; exact .inl hx
+    closed := by
+      intro y hy
+      rcases hy with rfl | hy
+      · exact .inl (List.mem_cons_self ..)
+      · cases hy
+    fuel := by simp; omega }
+
+/-- every member of `types_depending_on_checked_type` is a node from which `root` is reachable in ≥ 1 steps -/
+theorem dependsOn_sound (E : EdgeFn) (n root x : Nat) (h : x ∈ dependsOn E n root) : x < n ∧ EReach E x root :=
+  (depLoop_spec E n root (n + 1) [root] [] (dependsOn_inv E n root)).1 x h
+
+/-- `types_depending_on_checked_type` for `root` holds exactly the nodes from which `root` is reachable in ≥ 1 steps
+    (the worklist never runs out of its `n + 1` pops) -/
+theorem mem_dependsOn (E : EdgeFn) (n : Nat) (hE : ∀ a e, e ∈ E a → e.2 < n) (root x : Nat) :
+    x ∈ dependsOn E n root ↔ x < n ∧ EReach E x root := by
+  have hclosed := (depLoop_spec E n root (n + 1) [root] [] (dependsOn_inv E n root)).2
+  constructor
+  · exact dependsOn_sound E n root x
+  · rintro ⟨hlt, hr⟩
+    -- induction on the path from its end: every node on it is in the set
+    have key : ∀ a c, EReach E a c → c = root ∨ c ∈ dependsOn E n root → a < n → a ∈ dependsOn E n root := by
+      intro a c h
+      induction h with
+      | single hs => intro hc ha; exact hclosed _ hc _ ((mem_dependents E n _ _).2 ⟨ha, hs⟩)
+      | @cons a b c hs hbc ih =>
+        intro hc ha
+        have hb : b < n := by obtain ⟨f, hf⟩ := hs; exact hE a (f, b) hf
+        exact hclosed b (.inr (ih hc hb)) a ((mem_dependents E n _ _).2 ⟨ha, hs⟩)
+    exact key x root hr (.inl rfl) hlt
+
+/-! ## the skip rule does not change the reports -/
+
+/-- two detector states that agree on everything a report depends on (`reported_cycles` and the diagnostics) -/
+def Sim (a b : DState) : Prop := a.seen = b.seen ∧ a.reports = b.reports
+
+theorem Sim.rfl' (a : DState) : Sim a a := ⟨rfl, rfl⟩
+theorem Sim.tick {a b : DState} (h : Sim a b) : Sim a.tick b.tick := h
+theorem Sim.tick_left {a b : DState} (h : Sim a b) : Sim a.tick b := h
+theorem Sim.trans {a b c : DState} (h1 : Sim a b) (h2 : Sim b c) : Sim a c := ⟨h1.1.trans h2.1, h1.2.trans h2.2⟩
+theorem Sim.symm {a b : DState} (h : Sim a b) : Sim b a := ⟨h.1.symm, h.2.symm⟩
+
+theorem Sim.report {a b : DState} (h : Sim a b) (root : Nat) (stack : List Entry) :
+    Sim (report root stack a) (report root stack b) := by
+  unfold Cyc.report
+  rw [h.1]
+  split
+  · exact h
+  · exact ⟨by simp, by simp [h.2]⟩
+
+/-- a search started at a node from which the root cannot be reached reports nothing and records nothing -/
+theorem dfs_inert (E : EdgeFn) (root : Nat) (skip : Nat → Bool) (fuel : Nat) (stack : List Entry) (cur : Nat) (st : DState)
+    (h : ¬ EReach E cur root) : Sim (dfsG E root skip fuel stack cur st) st := by
+  refine dfs_induct E root skip (fun _ _ c => ¬ EReach E c root) (fun st' => Sim st' st) ?_ ?_ ?_ ?_ fuel stack cur st h
+    (Sim.rfl' st)
+  · intro _ _ c e hc he _ _ _ hr
+    exact hc (.cons ⟨e.1, he⟩ hr)
+  · intro st' h'; exact h'
+  · intro _ _ c e _ hc he hroot _
+    exact absurd (EReach.single ⟨e.1, by rw [← hroot]; exact he⟩) hc
+  · intro _ _ _ _ h'; exact h'
+
+/-- if only candidates that cannot reach the root are skipped, the search with the skip rule and the one without end in
+    states with the same `reported_cycles` and the same diagnostics (same fuel on both sides, any fuel) -/
+theorem dfs_sim (E : EdgeFn) (root : Nat) (skip : Nat → Bool)
+    (hskip : ∀ a e, e ∈ E a → skip e.2 = true → ¬ EReach E e.2 root) :
+    ∀ fuel stack cur st st', Sim st st' →
+      Sim (dfsG E root skip fuel stack cur st) (dfsG E root (fun _ => false) fuel stack cur st') := by
+  intro fuel
+  induction fuel with
+  | zero => intro _ _ st st' h; exact h
+  | succ fuel ih =>
+    intro stack cur st st' h
+    rw [dfs_succ, dfs_succ]
+    have key : ∀ (es : List (Nat × Nat)), (∀ e ∈ es, e ∈ E cur) → ∀ st st', Sim st st' →
+        Sim (es.foldl (fun st e =>
+              if e.2 == root then report root (stack ++ [⟨e.2, cur, e.1⟩]) st.tick
+              else if skip e.2 then st.tick
+              else if stack.any (fun x => x.target == e.2) then st.tick
+              else dfsG E root skip fuel (stack ++ [⟨e.2, cur, e.1⟩]) e.2 st.tick) st)
+            (es.foldl (fun st e =>
+              if e.2 == root then report root (stack ++ [⟨e.2, cur, e.1⟩]) st.tick
+              else if (fun _ => false) e.2 then st.tick
+              else if stack.any (fun x => x.target == e.2) then st.tick
+              else dfsG E root (fun _ => false) fuel (stack ++ [⟨e.2, cur, e.1⟩]) e.2 st.tick) st') := by
+      intro es
+      induction es with
+      | nil => intro _ st st' h; exact h
+      | cons e es ihes =>
+        intro hsub st st' h
+        rw [List.foldl_cons, List.foldl_cons]
+        apply ihes (fun x hx => hsub x (List.mem_cons_of_mem _ hx))
+        have he : e ∈ E cur := hsub e (List.mem_cons_self ..)
+        cases h1 : (e.2 == root) with
+        | true => simp only [if_true]; exact h.tick.report _ _
+        | false =>
+          simp only [Bool.false_eq_true, if_false]
+          cases h3 : skip e.2 with
+          | true =>
+            simp only [if_true]
+            have hnr := hskip cur e he h3
+            cases h2 : stack.any (fun x => x.target == e.2) with
+            | true => simp only [if_true]; exact h.tick
+            | false =>
+              simp only [Bool.false_eq_true, if_false]
+              exact h.tick.trans (dfs_inert E root _ fuel _ e.2 st'.tick hnr).symm
+          | false =>
+            simp only [Bool.false_eq_true, if_false]
+            cases h2 : stack.any (fun x => x.target == e.2) with
+            | true => simp only [if_true]; exact h.tick
+            | false =>
+              simp only [Bool.false_eq_true, if_false]
+              exact ih _ _ _ _ h.tick
+    exact key (E cur) (fun _ h => h) st st' h
+
+theorem detectG_sim (E : EdgeFn) (n : Nat) (skipOf : Nat → Nat → Bool)
+    (hskip : ∀ r a e, e ∈ E a → skipOf r e.2 = true → ¬ EReach E e.2 r) :
+    Sim (detectG E n skipOf) (detectG E n (fun _ _ => false)) := by
+  unfold detectG
+  have key : ∀ (rs : List Nat) (st st' : DState), Sim st st' →
+      Sim (rs.foldl (fun st r => dfsG E r (skipOf r) n [] r st) st)
+          (rs.foldl (fun st r => dfsG E r ((fun _ _ => false) r) n [] r st) st') := by
+    intro rs
+    induction rs with
+    | nil => intro _ _ h; exact h
+    | cons r rs ih =>
+      intro st st' h
+      rw [List.foldl_cons, List.foldl_cons]
+      exact ih _ _ (dfs_sim E r (skipOf r) (hskip r) n [] r st st' h)
+  exact key _ _ _ (Sim.rfl' _)
+
+/-- the skip rule of the code only skips candidates that cannot reach the checked type -/
+theorem skipDeps_ok (E : EdgeFn) (n : Nat) (hE : ∀ a e, e ∈ E a → e.2 < n) (r a : Nat) (e : Nat × Nat) (he : e ∈ E a)
+    (h : skipDeps (dependsOn E n r) e.2 = true) : ¬ EReach E e.2 r := by
+  intro hr
+  have := (mem_dependsOn E n hE r e.2).2 ⟨hE a e he, hr⟩
+  simp [skipDeps, this] at h
+
+/-- `prune_preserves_reports`, with `reported_cycles` -/
+theorem detect_sim (E : EdgeFn) (n : Nat) (hE : ∀ a e, e ∈ E a → e.2 < n) : Sim (detectE E n) (detectUnpruned E n) := by
+  rw [detectE_eq_detectG, detectUnpruned_eq_detectG]
+  exact detectG_sim E n _ (skipDeps_ok E n hE)
+
+theorem detect_reports_eq (E : EdgeFn) (n : Nat) (hE : ∀ a e, e ∈ E a → e.2 < n) :
+    (detectE E n).reports = (detectUnpruned E n).reports := (detect_sim E n hE).2
+
+/-! ## cost on acyclic graphs: one step per edge -/
+
+theorem report_steps' (root : Nat) (stack : List Entry) (st : DState) : (report root stack st).steps = st.steps :=
+  report_steps root stack st
+
+/-- on an acyclic graph every candidate met from the root is skipped at once: the search from `r` makes exactly one call
+    of `push_to_stack_and_check` per (field, leaf) edge of `r` -/
+theorem dfs_steps_acyclic (E : EdgeFn) (n : Nat) (hac : AcyclicE E) (r fuel : Nat) (st : DState) :
+    (dfs E r (dependsOn E n r) (fuel + 1) [] r st).steps = st.steps + (E r).length := by
+  simp only [dfs]
+  have key : ∀ (es : List (Nat × Nat)), (∀ e ∈ es, e ∈ E r) → ∀ st : DState,
+      (es.foldl (fun st e =>
+        if e.2 == r then report r ([] ++ [⟨e.2, r, e.1⟩]) st.tick
+        else if !(dependsOn E n r).contains e.2 then st.tick
+        else if ([] : List Entry).any (fun x => x.target == e.2) then st.tick
+        else dfs E r (dependsOn E n r) fuel ([] ++ [⟨e.2, r, e.1⟩]) e.2 st.tick) st).steps = st.steps + es.length := by
+    intro es
+    induction es with
+    | nil => intro _ st; rfl
+    | cons e es ih =>
+      intro hsub st
+      rw [List.foldl_cons, ih (fun x hx => hsub x (List.mem_cons_of_mem _ hx))]
+      have he : e ∈ E r := hsub e (List.mem_cons_self ..)
+      have h1 : (e.2 == r) = false := by
+        cases h : (e.2 == r) with
+        | false => rfl
+        | true =>
+          have h' : e.2 = r := by simpa using h
+          have hstep : EStep E r r := ⟨e.1, by have : e = (e.1, r) := by rw [← h']
+                                               rw [← this]; exact he⟩
+          exact absurd (EReach.single hstep) (hac r)
+      have h2 : (dependsOn E n r).contains e.2 = false := by
+        cases h : (dependsOn E n r).contains e.2 with
+        | false => rfl
+        | true =>
+          have hm : e.2 ∈ dependsOn E n r := by simpa using h
+          exact absurd (EReach.cons ⟨e.1, he⟩ (dependsOn_sound E n r e.2 hm).2) (hac r)
+      simp only [h1, h2, Bool.false_eq_true, if_false, Bool.not_false, if_true, tick_steps, List.length_cons]
+      omega
+  exact key (E r) (fun _ h => h) st
+
+theorem detectE_steps_acyclic (E : EdgeFn) (n : Nat) (hac : AcyclicE E) :
+    (detectE E n).steps = ((List.range n).map fun r => (E r).length).sum := by
+  unfold detectE
+  have key : ∀ (rs : List Nat) (st : DState), (∀ r ∈ rs, r < n) →
+      (rs.foldl (fun st r => dfs E r (dependsOn E n r) n [] r st) st).steps = st.steps + (rs.map fun r => (E r).length).sum := by
+    intro rs
+    induction rs with
+    | nil => intro st _; simp
+    | cons r rs ih =>
+      intro st hlt
+      rw [List.foldl_cons, ih _ (fun x hx => hlt x (List.mem_cons_of_mem _ hx))]
+      have hn : n = (n - 1) + 1 := by have := hlt r (List.mem_cons_self ..); omega
+      rw [hn, dfs_steps_acyclic E _ hac r (n - 1) st]
+      simp only [List.map_cons, List.sum_cons]
+      omega
+  have := key (List.range n) {} (fun r hr => List.mem_range.1 hr)
+  simpa using this
+
+/-! ## interface inheritance: `collect` (323593c) terminates on every graph -/
+
+theorem mem_ibases_lt (ig : IGraph) (i b : Nat) (h : b ∈ ibases ig i) : b < ig.length := by
+  unfold ibases at h
+  simpa using (List.mem_filter.1 h).2
+
+theorem igEdges_step (ig : IGraph) (a b : Nat) : EStep (igEdges ig) a b ↔ b ∈ ibases ig a := by
+  unfold EStep igEdges
+  simp
+
+theorem igEdges_lt (ig : IGraph) (a : Nat) (e : Nat × Nat) (h : e ∈ igEdges ig a) : e.2 < ig.length := by
+  unfold igEdges at h
+  obtain ⟨b, hb, rfl⟩ := List.mem_map.1 h
+  exact mem_ibases_lt ig a b hb
+
+@[simp] theorem push_expanded (st : BState) (b : Nat) : (st.push b).expanded = st.expanded := by
+  unfold BState.push; split <;> rfl
+@[simp] theorem push_exhausted (st : BState) (b : Nat) : (st.push b).exhausted = st.exhausted := by
+  unfold BState.push; split <;> rfl
+
+theorem pushFold_expanded (bs : List Nat) : ∀ st : BState, (bs.foldl BState.push st).expanded = st.expanded := by
+  induction bs with
+  | nil => intro st; rfl
+  | cons b bs ih => intro st; rw [List.foldl_cons, ih, push_expanded]
+
+theorem pushFold_exhausted (bs : List Nat) : ∀ st : BState, (bs.foldl BState.push st).exhausted = st.exhausted := by
+  induction bs with
+  | nil => intro st; rfl
+  | cons b bs ih => intro st; rw [List.foldl_cons, ih, push_exhausted]
+
+/-- one iteration of the second loop of `collect` -/
+def collectStep (ig : IGraph) (fuel : Nat) : BState → Nat → BState :=
+  fun st b => if st.expanded.contains b then st else collect ig fuel b { st with expanded := b :: st.expanded }
+
+theorem collect_succ (ig : IGraph) (fuel i : Nat) (st : BState) :
+    collect ig (fuel + 1) i st = (ibases ig i).foldl (collectStep ig fuel) ((ibases ig i).foldl BState.push st) := rfl
+
+/-- `expanded_identifiers` holds distinct interfaces of the graph -/
+def ExpInv (n : Nat) (st : BState) : Prop := st.expanded.Nodup ∧ ∀ x ∈ st.expanded, x < n
+
+theorem ExpInv.length_le {n : Nat} {st : BState} (h : ExpInv n st) : st.expanded.length ≤ n := by
+  have := List.Nodup.length_le_of_subset h.1 (fun x hx => List.mem_range.2 (h.2 x hx))
+  simpa using this
+
+/-- the nesting depth of `collect` is bounded by the number of interfaces not yet expanded: with
+    `#expanded + fuel ≥ n + 1` the out-of-fuel branch is never reached -/
+theorem collect_total (ig : IGraph) :
+    ∀ (fuel i : Nat) (st : BState), ExpInv ig.length st → ig.length + 1 ≤ st.expanded.length + fuel →
+      ExpInv ig.length (collect ig fuel i st) ∧ st.expanded.length ≤ (collect ig fuel i st).expanded.length ∧
+      (collect ig fuel i st).exhausted = st.exhausted := by
+  intro fuel
+  induction fuel with
+  | zero => intro i st hinv hlen; have := hinv.length_le; omega
+  | succ fuel ih =>
+    intro i st hinv hlen
+    rw [collect_succ]
+    have key : ∀ (bs : List Nat), (∀ b ∈ bs, b < ig.length) → ∀ st1 : BState, ExpInv ig.length st1 →
+        st.expanded.length ≤ st1.expanded.length →
+        ExpInv ig.length (bs.foldl (collectStep ig fuel) st1) ∧
+        st.expanded.length ≤ (bs.foldl (collectStep ig fuel) st1).expanded.length ∧
+        (bs.foldl (collectStep ig fuel) st1).exhausted = st1.exhausted := by
+      intro bs
+      induction bs with
+      | nil => intro _ st1 h1 h2; exact ⟨h1, h2, rfl⟩
+      | cons b bs ihb =>
+        intro hlt st1 h1 h2
+        rw [List.foldl_cons]
+        have hb : b < ig.length := hlt b (List.mem_cons_self ..)
+        have hstep : ExpInv ig.length (collectStep ig fuel st1 b) ∧
+            st.expanded.length ≤ (collectStep ig fuel st1 b).expanded.length ∧
+            (collectStep ig fuel st1 b).exhausted = st1.exhausted := by
+          cases hc : st1.expanded.contains b with
+          | true =>
+            have : collectStep ig fuel st1 b = st1 := by simp only [collectStep, hc, if_true]
+            rw [this]; exact ⟨h1, h2, rfl⟩
+          | false =>
+            have : collectStep ig fuel st1 b = collect ig fuel b { st1 with expanded := b :: st1.expanded } := by
+              simp only [collectStep, hc, Bool.false_eq_true, if_false]
+            rw [this]
+            have hnot : b ∉ st1.expanded := by simpa using hc
+            have hinv' : ExpInv ig.length { st1 with expanded := b :: st1.expanded } :=
+              ⟨List.nodup_cons.2 ⟨hnot, h1.1⟩, fun x hx => by
+                rcases List.mem_cons.1 hx with rfl | hx
+                · exact hb
+                · exact h1.2 x hx⟩
+            obtain ⟨r1, r2, r3⟩ := ih b { st1 with expanded := b :: st1.expanded } hinv'
+              (by simp only [List.length_cons]; omega)
+            refine ⟨r1, ?_, r3⟩
+            simp only [List.length_cons] at r2
+            omega
+        obtain ⟨s1, s2, s3⟩ := hstep
+        obtain ⟨t1, t2, t3⟩ := ihb (fun x hx => hlt x (List.mem_cons_of_mem _ hx)) _ s1 s2
+        exact ⟨t1, t2, t3.trans s3⟩
+    have := key (ibases ig i) (fun b hb => mem_ibases_lt ig i b hb) ((ibases ig i).foldl BState.push st)
+      (by unfold ExpInv; rw [pushFold_expanded]; exact hinv) (by rw [pushFold_expanded]; exact Nat.le_refl _)
+    rw [pushFold_exhausted] at this
+    exact this
+
+theorem allBases_isSome (ig : IGraph) (i : Nat) : ∃ l, allBases ig (ig.length + 1) i = some l := by
+  unfold allBases
+  have := (collect_total ig (ig.length + 1) i {} ⟨List.nodup_nil, by intro x hx; cases hx⟩ (by simp)).2.2
+  simp only [this]
+  exact ⟨_, rfl⟩
+
+/-! ## interface inheritance: `find_path` (0830460) finds a chain back to the interface iff there is one -/
+
+/-- `s = [x₁, …, x_m]` is a chain `prev → x₁ → … → x_m` -/
+def NLinked (E : EdgeFn) : Nat → List Nat → Prop
+  | _, [] => True
+  | prev, x :: rest => EStep E prev x ∧ NLinked E x rest
+
+/-- where the chain ends -/
+def nlast : Nat → List Nat → Nat
+  | prev, [] => prev
+  | _, x :: rest => nlast x rest
+
+theorem nlinked_reach (E : EdgeFn) : ∀ (s : List Nat) (prev : Nat), s ≠ [] → NLinked E prev s → EReach E prev (nlast prev s)
+  | [], _, h, _ => absurd rfl h
+  | [x], _, _, hl => .single hl.1
+  | x :: y :: rest, _, _, hl => .cons hl.1 (nlinked_reach E (y :: rest) x (by simp) hl.2)
+
+/-- one iteration of the loop of `find_path` -/
+def findStep (ig : IGraph) (target fuel : Nat) : FState → Nat → FState :=
+  fun st b =>
+    if st.found then st
+    else if b == target then { st with path := st.path ++ [b], found := true }
+    else if st.seen.contains b then st
+    else
+      let st1 := findPath ig target fuel b { st with seen := b :: st.seen, path := st.path ++ [b] }
+      if st1.found then st1 else { st1 with path := st1.path.dropLast }
+
+theorem findPath_succ (ig : IGraph) (target fuel cur : Nat) (st : FState) :
+    findPath ig target (fuel + 1) cur st = (ibases ig cur).foldl (findStep ig target fuel) st := rfl
+
+theorem findStep_rec (ig : IGraph) (target fuel : Nat) (st : FState) (b : Nat) (h1 : st.found = false)
+    (hbt : (b == target) = false) (hc : st.seen.contains b = false) :
+    findStep ig target fuel st b =
+      if (findPath ig target fuel b { st with seen := b :: st.seen, path := st.path ++ [b] }).found then
+        findPath ig target fuel b { st with seen := b :: st.seen, path := st.path ++ [b] }
+      else { findPath ig target fuel b { st with seen := b :: st.seen, path := st.path ++ [b] } with
+             path := (findPath ig target fuel b { st with seen := b :: st.seen, path := st.path ++ [b] }).path.dropLast } := by
+  unfold findStep
+  rw [if_neg (by rw [h1]; exact Bool.false_ne_true), if_neg (by rw [hbt]; exact Bool.false_ne_true),
+    if_neg (by rw [hc]; exact Bool.false_ne_true)]
+
+/-- once `find_path` has returned `true`, nothing else happens -/
+theorem findFold_found (ig : IGraph) (target fuel : Nat) (bs : List Nat) :
+    ∀ st : FState, st.found = true → bs.foldl (findStep ig target fuel) st = st := by
+  induction bs with
+  | nil => intro st _; rfl
+  | cons b bs ih =>
+    intro st h
+    rw [List.foldl_cons]
+    have : findStep ig target fuel st b = st := by simp only [findStep, h, if_true]
+    rw [this]; exact ih st h
+
+/-- `seen` holds distinct interfaces of the graph -/
+def SeenOk (n : Nat) (st : FState) : Prop := st.seen.Nodup ∧ ∀ x ∈ st.seen, x < n
+
+theorem SeenOk.length_le {n : Nat} {st : FState} (h : SeenOk n st) : st.seen.length ≤ n := by
+  have := List.Nodup.length_le_of_subset h.1 (fun x hx => List.mem_range.2 (h.2 x hx))
+  simpa using this
+
+/-- all bases of `x` differ from the target and are in `S` -/
+def IClosed (ig : IGraph) (target x : Nat) (S : List Nat) : Prop := ∀ b ∈ ibases ig x, b ≠ target ∧ b ∈ S
+
+theorem IClosed.mono {ig : IGraph} {target x : Nat} {S S' : List Nat} (h : IClosed ig target x S) (hs : ∀ y ∈ S, y ∈ S') :
+    IClosed ig target x S' := fun b hb => ⟨(h b hb).1, hs b (h b hb).2⟩
+
+/-- what a run of the loop of `find_path` over (part of) the bases `bs` of `cur` establishes, relative to the state `st`
+    it started in -/
+structure FindSpec (ig : IGraph) (target cur : Nat) (bs : List Nat) (st st' : FState) : Prop where
+  seenOk : SeenOk ig.length st'
+  seenExt : ∃ new, st'.seen = new ++ st.seen
+  exh : st'.exhausted = st.exhausted
+  notFound : st'.found = false →
+    st'.path = st.path ∧ (∀ b ∈ bs, b ≠ target ∧ b ∈ st'.seen) ∧
+    (∀ x ∈ st'.seen, x ∈ st.seen ∨ IClosed ig target x st'.seen)
+  found : st'.found = true →
+    ∃ s, s ≠ [] ∧ st'.path = st.path ++ s ∧ NLinked (igEdges ig) cur s ∧ nlast cur s = target
+
+theorem findPath_spec (ig : IGraph) (target : Nat) :
+    ∀ (fuel cur : Nat) (st : FState), st.found = false → SeenOk ig.length st → ig.length + 1 ≤ st.seen.length + fuel →
+      FindSpec ig target cur (ibases ig cur) st (findPath ig target fuel cur st) := by
+  intro fuel
+  induction fuel with
+  | zero => intro cur st _ hok hlen; have := hok.length_le; omega
+  | succ fuel ih =>
+    intro cur st hnf hok hlen
+    rw [findPath_succ]
+    have key : ∀ (bs : List Nat), (∀ b ∈ bs, b ∈ ibases ig cur) → ∀ st1 : FState, st1.found = false →
+        SeenOk ig.length st1 → ig.length ≤ st1.seen.length + fuel →
+        FindSpec ig target cur bs st1 (bs.foldl (findStep ig target fuel) st1) := by
+      intro bs
+      induction bs with
+      | nil =>
+        intro _ st1 h1 h2 _
+        exact ⟨h2, ⟨[], rfl⟩, rfl, fun _ => ⟨rfl, by simp, fun x hx => .inl hx⟩, fun h => by simp [List.foldl_nil, h1] at h⟩
+      | cons b bs ihb =>
+        intro hsub st1 h1 h2 h3
+        rw [List.foldl_cons]
+        have hbmem : b ∈ ibases ig cur := hsub b (List.mem_cons_self ..)
+        have hsub' : ∀ x ∈ bs, x ∈ ibases ig cur := fun x hx => hsub x (List.mem_cons_of_mem _ hx)
+        have hstepE : EStep (igEdges ig) cur b := (igEdges_step ig cur b).2 hbmem
+        by_cases hbt : b = target
+        · -- `id == target`: the chain is complete
+          have hs : findStep ig target fuel st1 b = { st1 with path := st1.path ++ [b], found := true } := by
+            simp only [findStep, h1, hbt, beq_self_eq_true, if_true, Bool.false_eq_true, if_false]
+          rw [hs, findFold_found _ _ _ _ _ rfl]
+          exact ⟨h2, ⟨[], rfl⟩, rfl, fun h => by simp at h, fun _ => ⟨[b], by simp, rfl, ⟨hstepE, trivial⟩, hbt⟩⟩
+        · have hbt' : (b == target) = false := by simpa using hbt
+          cases hc : st1.seen.contains b with
+          | true =>
+            -- already entered: nothing happens
+            have hs : findStep ig target fuel st1 b = st1 := by
+              simp only [findStep, h1, hbt', hc, if_true, Bool.false_eq_true, if_false]
+            rw [hs]
+            have r := ihb hsub' st1 h1 h2 h3
+            refine ⟨r.seenOk, r.seenExt, r.exh, fun hf => ?_, r.found⟩
+            obtain ⟨p1, p2, p3⟩ := r.notFound hf
+            refine ⟨p1, ?_, p3⟩
+            intro x hx
+            rcases List.mem_cons.1 hx with rfl | hx
+            · obtain ⟨new, hnew⟩ := r.seenExt
+              exact ⟨hbt, by rw [hnew]; exact List.mem_append_right _ (by simpa using hc)⟩
+            · exact p2 x hx
+          | false =>
+            have hnot : b ∉ st1.seen := by simpa using hc
+            have hb : b < ig.length := mem_ibases_lt ig cur b hbmem
+            have hok' : SeenOk ig.length { st1 with seen := b :: st1.seen, path := st1.path ++ [b] } :=
+              ⟨List.nodup_cons.2 ⟨hnot, h2.1⟩, fun x hx => by
+                rcases List.mem_cons.1 hx with rfl | hx
+                · exact hb
+                · exact h2.2 x hx⟩
+            have r := ih b { st1 with seen := b :: st1.seen, path := st1.path ++ [b] } h1 hok'
+              (by simp only [List.length_cons]; omega)
+            generalize hr : findPath ig target fuel b { st1 with seen := b :: st1.seen, path := st1.path ++ [b] } = rs at r
+            obtain ⟨new, hnew⟩ := r.seenExt
+            simp only at hnew
+            cases hrf : rs.found with
+            | true =>
+              -- found below `b`
+              have hs : findStep ig target fuel st1 b = rs := by
+                rw [findStep_rec ig target fuel st1 b h1 hbt' hc, hr, if_pos hrf]
+              rw [hs, findFold_found _ _ _ _ _ hrf]
+              refine ⟨r.seenOk, ⟨new ++ [b], by rw [hnew]; simp⟩, r.exh, fun h => by simp [hrf] at h, fun _ => ?_⟩
+              obtain ⟨s, _, hs2, hs3, hs4⟩ := r.found hrf
+              exact ⟨b :: s, by simp, by rw [hs2]; simp, ⟨hstepE, hs3⟩, hs4⟩
+            | false =>
+              -- not found below `b`: `path.pop()` and on to the next base
+              obtain ⟨q1, q2, q3⟩ := r.notFound hrf
+              simp only at q1 q3
+              have hs : findStep ig target fuel st1 b = { rs with path := st1.path } := by
+                rw [findStep_rec ig target fuel st1 b h1 hbt' hc, hr, if_neg (by rw [hrf]; exact Bool.false_ne_true), q1,
+                  List.dropLast_concat]
+              rw [hs]
+              have hlen2 : ig.length ≤ rs.seen.length + fuel := by
+                rw [hnew]; simp only [List.length_append, List.length_cons]; omega
+              have r2 := ihb hsub' { rs with path := st1.path } hrf r.seenOk hlen2
+              generalize bs.foldl (findStep ig target fuel) { rs with path := st1.path } = fin at r2
+              obtain ⟨new2, hnew2⟩ := r2.seenExt
+              simp only at hnew2
+              have hsubseen : ∀ y ∈ rs.seen, y ∈ fin.seen := fun y hy => by rw [hnew2]; exact List.mem_append_right _ hy
+              refine ⟨r2.seenOk, ⟨new2 ++ new ++ [b], by rw [hnew2, hnew]; simp⟩, r2.exh.trans r.exh, fun hf => ?_, fun hf => ?_⟩
+              · obtain ⟨p1, p2, p3⟩ := r2.notFound hf
+                simp only at p1 p3
+                refine ⟨p1, ?_, ?_⟩
+                · intro x hx
+                  rcases List.mem_cons.1 hx with rfl | hx
+                  · exact ⟨hbt, hsubseen _ (by rw [hnew]; exact List.mem_append_right _ (List.mem_cons_self ..))⟩
+                  · exact p2 x hx
+                · intro x hx
+                  rcases p3 x hx with hx' | hx'
+                  · rcases q3 x hx' with hx'' | hx''
+                    · rcases List.mem_cons.1 hx'' with rfl | hx''
+                      · exact .inr (IClosed.mono q2 hsubseen)
+                      · exact .inl hx''
+                    · exact .inr (hx''.mono hsubseen)
+                  · exact .inr hx'
+              · exact r2.found hf
+    exact key (ibases ig cur) (fun _ h => h) st hnf hok (by omega)
+
+theorem findPathFrom_spec (ig : IGraph) (i : Nat) :
+    FindSpec ig i i (ibases ig i) { path := [i] } (findPathFrom ig i) :=
+  findPath_spec ig i (ig.length + 1) i { path := [i] } rfl ⟨List.nodup_nil, by intro x hx; cases hx⟩ (by simp)
+
+/-- the reported chain is `i → … → i` along base references -/
+theorem checkInterface_sound (ig : IGraph) (i : Nat) (p : List Nat) (h : checkInterface ig i = some p) :
+    ∃ s, s ≠ [] ∧ p = i :: s ∧ NLinked (igEdges ig) i s ∧ nlast i s = i := by
+  unfold checkInterface at h
+  cases hf : (findPathFrom ig i).found with
+  | false => simp [hf] at h
+  | true =>
+    simp only [hf, if_true, Option.some.injEq] at h
+    obtain ⟨s, h1, h2, h3, h4⟩ := (findPathFrom_spec ig i).found hf
+    exact ⟨s, h1, by rw [← h, h2]; rfl, h3, h4⟩
+
+/-- an interface is reported exactly when it reaches itself through base references -/
+theorem checkInterface_isSome_iff (ig : IGraph) (i : Nat) :
+    (checkInterface ig i).isSome = true ↔ EReach (igEdges ig) i i := by
+  constructor
+  · intro h
+    cases hp : checkInterface ig i with
+    | none => simp [hp] at h
+    | some p =>
+      obtain ⟨s, h1, _, h3, h4⟩ := checkInterface_sound ig i p hp
+      have := nlinked_reach (igEdges ig) s i h1 h3
+      rw [h4] at this
+      exact this
+  · intro hr
+    unfold checkInterface
+    cases hf : (findPathFrom ig i).found with
+    | true => simp [hf]
+    | false =>
+      exfalso
+      obtain ⟨_, hbases, hclosed⟩ := (findPathFrom_spec ig i).notFound hf
+      -- everything reachable from `i` was entered and is not `i`
+      have key : ∀ a d, EReach (igEdges ig) a d → (a = i ∨ a ∈ (findPathFrom ig i).seen) →
+          d ≠ i ∧ d ∈ (findPathFrom ig i).seen := by
+        intro a d h
+        induction h with
+        | @single a d hs =>
+          intro ha
+          have hd := (igEdges_step ig a d).1 hs
+          rcases ha with rfl | ha
+          · exact hbases d hd
+          · rcases hclosed a ha with h' | h'
+            · cases h'
+            · exact h' d hd
+        | @cons a b d hs _ ih =>
+          intro ha
+          have hb := (igEdges_step ig a b).1 hs
+          have : b ∈ (findPathFrom ig i).seen := by
+            rcases ha with rfl | ha
+            · exact (hbases b hb).2
+            · rcases hclosed a ha with h' | h'
+              · cases h'
+              · exact (h' b hb).2
+          exact ih (.inr this)
+      exact (key i i hr (.inl rfl)).1 rfl
+
+theorem findPathFrom_not_exhausted (ig : IGraph) (i : Nat) : (findPathFrom ig i).exhausted = false :=
+  (findPathFrom_spec ig i).exh
+
+theorem mem_ifaceLoopErrors (ig : IGraph) (i : Nat) (p : List Nat) :
+    (i, p) ∈ ifaceLoopErrors ig ↔ i < ig.length ∧ checkInterface ig i = some p := by
+  unfold ifaceLoopErrors
+  simp only [List.mem_filterMap, List.mem_range, Option.map_eq_some_iff, Prod.mk.injEq]
+  constructor
+  · rintro ⟨j, hj, q, hq, rfl, rfl⟩; exact ⟨hj, hq⟩
+  · rintro ⟨hi, hp⟩; exact ⟨i, hi, p, hp, rfl, rfl⟩
+
+/-! ## interface inheritance: `collect` (323593c) computes what the old definition computed, wherever that returned -/
+
+/-- `if seen.insert(b) { all.push(b) }` on the pair (all, seen) -/
+def pushAS (p : List Nat × List Nat) (b : Nat) : List Nat × List Nat :=
+  if p.2.contains b then p else (p.1 ++ [b], b :: p.2)
+
+def BState.as (st : BState) : List Nat × List Nat := (st.all, st.seen)
+
+theorem push_as (st : BState) (b : Nat) : (st.push b).as = pushAS st.as b := by
+  unfold BState.push pushAS BState.as
+  split <;> rfl
+
+theorem pushFold_as (bs : List Nat) : ∀ st : BState, (bs.foldl BState.push st).as = bs.foldl pushAS st.as := by
+  induction bs with
+  | nil => intro st; rfl
+  | cons b bs ih => intro st; rw [List.foldl_cons, List.foldl_cons, ih, push_as]
+
+theorem pushAS_seen_mono (l : List Nat) : ∀ (p : List Nat × List Nat) (x : Nat), x ∈ p.2 → x ∈ (l.foldl pushAS p).2 := by
+  induction l with
+  | nil => intro p x h; exact h
+  | cons b l ih =>
+    intro p x h
+    rw [List.foldl_cons]
+    apply ih
+    unfold pushAS
+    split
+    · exact h
+    · exact List.mem_cons_of_mem _ h
+
+theorem pushAS_seen_all (l : List Nat) : ∀ (p : List Nat × List Nat) (x : Nat), x ∈ l → x ∈ (l.foldl pushAS p).2 := by
+  induction l with
+  | nil => intro _ x h; cases h
+  | cons b l ih =>
+    intro p x h
+    rw [List.foldl_cons]
+    rcases List.mem_cons.1 h with rfl | h
+    · apply pushAS_seen_mono
+      unfold pushAS
+      split
+      · rename_i hc; simpa using hc
+      · exact List.mem_cons_self ..
+    · exact ih _ x h
+
+/-- pushing interfaces that were all seen before changes nothing -/
+theorem pushAS_noop (l : List Nat) : ∀ (p : List Nat × List Nat), (∀ x ∈ l, x ∈ p.2) → l.foldl pushAS p = p := by
+  induction l with
+  | nil => intro p _; rfl
+  | cons b l ih =>
+    intro p h
+    rw [List.foldl_cons]
+    have : pushAS p b = p := by
+      unfold pushAS
+      rw [if_pos (by simpa using h b (List.mem_cons_self ..))]
+    rw [this]
+    exact ih p (fun x hx => h x (List.mem_cons_of_mem _ hx))
+
+theorem pushAS_filter_seen (l : List Nat) (x : Nat) :
+    ∀ (p : List Nat × List Nat), x ∈ p.2 → (l.filter (· != x)).foldl pushAS p = l.foldl pushAS p := by
+  induction l with
+  | nil => intro p _; rfl
+  | cons b l ih =>
+    intro p h
+    by_cases hb : b = x
+    · subst hb
+      have h1 : (b :: l).filter (· != b) = l.filter (· != b) := by simp
+      have h2 : pushAS p b = p := by unfold pushAS; rw [if_pos (by simpa using h)]
+      rw [h1, List.foldl_cons, h2]
+      exact ih p h
+    · have h1 : (b :: l).filter (· != x) = b :: l.filter (· != x) := by simp [hb]
+      rw [h1, List.foldl_cons, List.foldl_cons]
+      apply ih
+      unfold pushAS
+      split
+      · exact h
+      · exact List.mem_cons_of_mem _ h
+
+/-- `retain` first occurrences before pushing is the same as pushing -/
+theorem pushAS_dedupKeep (l : List Nat) : ∀ (p : List Nat × List Nat), (dedupKeep l).foldl pushAS p = l.foldl pushAS p := by
+  induction l with
+  | nil => intro p; rfl
+  | cons b l ih =>
+    intro p
+    simp only [dedupKeep, List.foldl_cons]
+    rw [pushAS_filter_seen, ih]
+    unfold pushAS
+    split
+    · rename_i hc; simpa using hc
+    · exact List.mem_cons_self ..
+
+/-- what pushing a list does to `all_bases`: its first occurrences that were not seen before are appended -/
+theorem pushAS_all (l : List Nat) : ∀ (a s : List Nat),
+    (l.foldl pushAS (a, s)).1 = a ++ (dedupKeep l).filter (fun x => !s.contains x) := by
+  induction l with
+  | nil => intro a s; simp [dedupKeep]
+  | cons b l ih =>
+    intro a s
+    rw [List.foldl_cons]
+    by_cases hb : b ∈ s
+    · have h1 : pushAS (a, s) b = (a, s) := by unfold pushAS; rw [if_pos (by simpa using hb)]
+      rw [h1, ih]
+      congr 1
+      simp only [dedupKeep]
+      rw [List.filter_cons_of_neg (by simpa using hb), List.filter_filter]
+      apply List.filter_congr
+      intro y _
+      by_cases hy : y = b
+      · subst hy; simp [hb]
+      · simp [hy]
+    · have h1 : pushAS (a, s) b = (a ++ [b], b :: s) := by
+        unfold pushAS; rw [if_neg (by simpa using hb)]
+      rw [h1, ih]
+      simp only [dedupKeep]
+      rw [List.filter_cons_of_pos (by simpa using hb), List.filter_filter, List.append_assoc]
+      congr 1
+      simp only [List.singleton_append, List.cons.injEq, true_and]
+      apply List.filter_congr
+      intro y _
+      by_cases hy : y = b
+      · subst hy; simp
+      · simp [hy, Bool.and_comm]
+
+theorem mem_dedupKeep (l : List Nat) (x : Nat) : x ∈ dedupKeep l ↔ x ∈ l := by
+  induction l with
+  | nil => simp [dedupKeep]
+  | cons b l ih =>
+    simp only [dedupKeep, List.mem_cons, List.mem_filter, ih, bne_iff_ne, ne_eq]
+    constructor
+    · rintro (h | ⟨h, _⟩)
+      · exact .inl h
+      · exact .inr h
+    · intro h
+      by_cases hx : x = b
+      · exact .inl hx
+      · rcases h with h | h
+        · exact absurd h hx
+        · exact .inr ⟨h, hx⟩
+
+/-! ### the shape of the old definition's result -/
+
+/-- the `extend` loop of the old definition -/
+def specFold (ig : IGraph) (fuel : Nat) (bs : List Nat) (acc : Option (List Nat)) : Option (List Nat) :=
+  bs.foldl (fun acc b => joinBases acc (allBasesSpec ig fuel b)) acc
+
+theorem allBasesSpec_succ (ig : IGraph) (fuel i : Nat) :
+    allBasesSpec ig (fuel + 1) i = (specFold ig fuel (ibases ig i) (some (ibases ig i))).map dedupKeep := rfl
+
+theorem specFold_cons_some (ig : IGraph) (fuel b : Nat) (bs a X : List Nat)
+    (h : specFold ig fuel (b :: bs) (some a) = some X) :
+    ∃ lb, allBasesSpec ig fuel b = some lb ∧ specFold ig fuel bs (some (a ++ lb)) = some X := by
+  unfold specFold at h ⊢
+  rw [List.foldl_cons] at h
+  cases hb : allBasesSpec ig fuel b with
+  | none =>
+    rw [hb] at h
+    have : joinBases (some a) none = none := rfl
+    rw [this, allBasesSpec_fold_none] at h
+    cases h
+  | some lb => rw [hb] at h; exact ⟨lb, rfl, h⟩
+
+theorem specFold_mem (ig : IGraph) (fuel : Nat) (bs : List Nat) :
+    ∀ (a X : List Nat), specFold ig fuel bs (some a) = some X →
+      ∀ d, d ∈ X ↔ d ∈ a ∨ ∃ b ∈ bs, ∃ lb, allBasesSpec ig fuel b = some lb ∧ d ∈ lb := by
+  induction bs with
+  | nil =>
+    intro a X h d
+    simp only [specFold, List.foldl_nil, Option.some.injEq] at h
+    subst h; simp
+  | cons b bs ih =>
+    intro a X h d
+    obtain ⟨lb, hlb, hrest⟩ := specFold_cons_some ig fuel b bs a X h
+    rw [ih _ X hrest d, List.mem_append]
+    constructor
+    · rintro ((h | h) | ⟨b', hb', lb', h1, h2⟩)
+      · exact .inl h
+      · exact .inr ⟨b, List.mem_cons_self .., lb, hlb, h⟩
+      · exact .inr ⟨b', List.mem_cons_of_mem _ hb', lb', h1, h2⟩
+    · rintro (h | ⟨b', hb', lb', h1, h2⟩)
+      · exact .inl (.inl h)
+      · rcases List.mem_cons.1 hb' with rfl | hb'
+        · rw [hlb] at h1; cases h1; exact .inl (.inr h2)
+        · exact .inr ⟨b', hb', lb', h1, h2⟩
+
+/-- the old definition returns exactly the interfaces reachable through ≥ 1 base references -/
+theorem allBasesSpec_mem (ig : IGraph) :
+    ∀ (fuel i : Nat) (l : List Nat), allBasesSpec ig fuel i = some l → ∀ d, d ∈ l ↔ EReach (igEdges ig) i d := by
+  intro fuel
+  induction fuel with
+  | zero => intro i l h; cases h
+  | succ fuel ih =>
+    intro i l h d
+    rw [allBasesSpec_succ] at h
+    cases hX : specFold ig fuel (ibases ig i) (some (ibases ig i)) with
+    | none => rw [hX] at h; cases h
+    | some X =>
+      rw [hX] at h
+      simp only [Option.map_some, Option.some.injEq] at h
+      subst h
+      rw [mem_dedupKeep, specFold_mem ig fuel _ _ X hX d]
+      constructor
+      · rintro (h | ⟨b, hb, lb, h1, h2⟩)
+        · exact .single ((igEdges_step ig i d).2 h)
+        · exact .cons ((igEdges_step ig i b).2 hb) ((ih b lb h1 d).1 h2)
+      · intro hr
+        obtain ⟨b, hb, hbd⟩ := hr.head
+        have hb' := (igEdges_step ig i b).1 hb
+        rcases hbd with rfl | hbd
+        · exact .inl hb'
+        · -- the fold returned, so the old definition returned for `b`
+          have : ∃ lb, allBasesSpec ig fuel b = some lb := by
+            cases hsb : allBasesSpec ig fuel b with
+            | some lb => exact ⟨lb, rfl⟩
+            | none =>
+              have := allBasesSpec_fold_none_of_mem ig fuel (ibases ig i) (some (ibases ig i)) ⟨b, hb', hsb⟩
+              unfold specFold at hX
+              rw [this] at hX; cases hX
+          obtain ⟨lb, hlb⟩ := this
+          exact .inr ⟨b, hb', lb, hlb, (ih b lb hlb d).2 hbd⟩
+
+/-- the old definition does not return for an interface that inherits from itself (D-05a), whatever the fuel -/
+theorem allBasesSpec_none_of_loop (ig : IGraph) :
+    ∀ (fuel i : Nat), EReach (igEdges ig) i i → allBasesSpec ig fuel i = none := by
+  intro fuel
+  induction fuel with
+  | zero => intro _ _; rfl
+  | succ fuel ih =>
+    intro i hr
+    obtain ⟨b, hb, hbi⟩ := hr.head
+    have hbb : EReach (igEdges ig) b b := by
+      rcases hbi with rfl | hbi
+      · exact hr
+      · exact hbi.snoc hb
+    rw [allBasesSpec_succ]
+    unfold specFold
+    rw [allBasesSpec_fold_none_of_mem ig fuel _ _ ⟨b, (igEdges_step ig i b).1 hb, ih b hbb⟩]
+    rfl
+
+/-! ### the refinement -/
+
+/-- every interface below `b` has been seen -/
+def IDone (ig : IGraph) (b : Nat) (seen : List Nat) : Prop := ∀ d, EReach (igEdges ig) b d → d ∈ seen
+
+theorem IDone.mono {ig : IGraph} {b : Nat} {S S' : List Nat} (h : IDone ig b S) (hs : ∀ y ∈ S, y ∈ S') : IDone ig b S' :=
+  fun d hd => hs d (h d hd)
+
+/-- what a call of `collect` establishes when the old definition returns `l` for the same interface: `all_bases` and
+    `seen` are those obtained by pushing `l`; every interface in `expanded` that is not an ancestor still being expanded
+    (`Anc`) has all the interfaces below it in `seen` -/
+structure CollectSpec (ig : IGraph) (Anc : Nat → Prop) (l : List Nat) (st st' : BState) : Prop where
+  as : st'.as = l.foldl pushAS st.as
+  inv : ExpInv ig.length st'
+  len : st.expanded.length ≤ st'.expanded.length
+  exh : st'.exhausted = st.exhausted
+  done : ∀ b ∈ st'.expanded, Anc b ∨ IDone ig b st'.seen
+
+theorem collect_spec (ig : IGraph) :
+    ∀ (f i : Nat) (l : List Nat), allBasesSpec ig f i = some l →
+    ∀ (F : Nat) (st : BState) (Anc : Nat → Prop),
+      ExpInv ig.length st → ig.length + 1 ≤ st.expanded.length + F →
+      (∀ b ∈ st.expanded, Anc b ∨ IDone ig b st.seen) →
+      (∀ d, EReach (igEdges ig) i d → ¬ Anc d) →
+      CollectSpec ig Anc l st (collect ig F i st) := by
+  intro f
+  induction f with
+  | zero => intro i l h; cases h
+  | succ f ih =>
+    intro i l hspec F st Anc hinv hlen hdone hanc
+    cases F with
+    | zero => have := hinv.length_le; omega
+    | succ F =>
+      rw [collect_succ]
+      rw [allBasesSpec_succ] at hspec
+      cases hX : specFold ig f (ibases ig i) (some (ibases ig i)) with
+      | none => rw [hX] at hspec; cases hspec
+      | some X =>
+        rw [hX] at hspec
+        simp only [Option.map_some, Option.some.injEq] at hspec
+        have key : ∀ (bs : List Nat), (∀ b ∈ bs, b ∈ ibases ig i) → ∀ (a X : List Nat) (st1 : BState),
+            specFold ig f bs (some a) = some X → st1.as = a.foldl pushAS st.as → ExpInv ig.length st1 →
+            st.expanded.length ≤ st1.expanded.length → st1.exhausted = st.exhausted →
+            (∀ b ∈ st1.expanded, Anc b ∨ IDone ig b st1.seen) →
+            (bs.foldl (collectStep ig F) st1).as = X.foldl pushAS st.as ∧
+            ExpInv ig.length (bs.foldl (collectStep ig F) st1) ∧
+            st.expanded.length ≤ (bs.foldl (collectStep ig F) st1).expanded.length ∧
+            (bs.foldl (collectStep ig F) st1).exhausted = st.exhausted ∧
+            (∀ b ∈ (bs.foldl (collectStep ig F) st1).expanded, Anc b ∨ IDone ig b (bs.foldl (collectStep ig F) st1).seen) := by
+          intro bs
+          induction bs with
+          | nil =>
+            intro _ a X st1 hX h1 h2 h3 h4 h5
+            simp only [specFold, List.foldl_nil, Option.some.injEq] at hX
+            subst hX
+            exact ⟨h1, h2, h3, h4, h5⟩
+          | cons b bs ihb =>
+            intro hsub a X st1 hX h1 h2 h3 h4 h5
+            rw [List.foldl_cons]
+            obtain ⟨lb, hlb, hrest⟩ := specFold_cons_some ig f b bs a X hX
+            have hbmem : b ∈ ibases ig i := hsub b (List.mem_cons_self ..)
+            have hsub' : ∀ x ∈ bs, x ∈ ibases ig i := fun x hx => hsub x (List.mem_cons_of_mem _ hx)
+            have hib : EStep (igEdges ig) i b := (igEdges_step ig i b).2 hbmem
+            cases hc : st1.expanded.contains b with
+            | true =>
+              -- expanded before (and finished, the graph below `i` being acyclic): everything below `b` is seen
+              have hs : collectStep ig F st1 b = st1 := by simp only [collectStep, hc, if_true]
+              rw [hs]
+              refine ihb hsub' (a ++ lb) X st1 hrest ?_ h2 h3 h4 h5
+              rw [List.foldl_append, ← h1, pushAS_noop]
+              intro x hx
+              have hbx : EReach (igEdges ig) b x := (allBasesSpec_mem ig f b lb hlb x).1 hx
+              rcases h5 b (by simpa using hc) with hA | hD
+              · exact absurd hA (hanc b (.single hib))
+              · exact hD x hbx
+            | false =>
+              have hnot : b ∉ st1.expanded := by simpa using hc
+              have hb : b < ig.length := mem_ibases_lt ig i b hbmem
+              have hs : collectStep ig F st1 b = collect ig F b { st1 with expanded := b :: st1.expanded } := by
+                simp only [collectStep, hc, Bool.false_eq_true, if_false]
+              rw [hs]
+              have hinv' : ExpInv ig.length { st1 with expanded := b :: st1.expanded } :=
+                ⟨List.nodup_cons.2 ⟨hnot, h2.1⟩, fun x hx => by
+                  rcases List.mem_cons.1 hx with rfl | hx
+                  · exact hb
+                  · exact h2.2 x hx⟩
+              have r := ih b lb hlb F { st1 with expanded := b :: st1.expanded } (fun x => Anc x ∨ x = b) hinv'
+                (by simp only [List.length_cons]; omega)
+                (by
+                  intro x hx
+                  rcases List.mem_cons.1 hx with rfl | hx
+                  · exact .inl (.inr rfl)
+                  · rcases h5 x hx with h | h
+                    · exact .inl (.inl h)
+                    · exact .inr h)
+                (by
+                  intro d hd hA
+                  rcases hA with hA | rfl
+                  · exact hanc d (.cons hib hd) hA
+                  · have := allBasesSpec_none_of_loop ig f d hd
+                    rw [this] at hlb; cases hlb)
+              generalize collect ig F b { st1 with expanded := b :: st1.expanded } = st2 at r
+              have has : st2.as = (a ++ lb).foldl pushAS st.as := by
+                rw [List.foldl_append, ← h1]; exact r.as
+              refine ihb hsub' (a ++ lb) X st2 hrest has r.inv ?_ (r.exh.trans h4) ?_
+              · have := r.len; simp only [List.length_cons] at this; omega
+              · intro x hx
+                rcases r.done x hx with (hA | rfl) | hD
+                · exact .inl hA
+                · right
+                  intro d hd
+                  have hdl : d ∈ lb := (allBasesSpec_mem ig f x lb hlb d).2 hd
+                  have : st2.seen = (lb.foldl pushAS st1.as).2 := congrArg Prod.snd r.as
+                  rw [this]
+                  exact pushAS_seen_all lb _ d hdl
+                · exact .inr hD
+        have hseen : ∀ y ∈ st.seen, y ∈ ((ibases ig i).foldl BState.push st).seen := by
+          intro y hy
+          have : ((ibases ig i).foldl BState.push st).seen = ((ibases ig i).foldl pushAS st.as).2 :=
+            congrArg Prod.snd (pushFold_as (ibases ig i) st)
+          rw [this]
+          exact pushAS_seen_mono _ _ y hy
+        obtain ⟨k1, k2, k3, k4, k5⟩ := key (ibases ig i) (fun _ h => h) (ibases ig i) X
+          ((ibases ig i).foldl BState.push st) hX (pushFold_as _ st)
+          (by unfold ExpInv; rw [pushFold_expanded]; exact hinv) (by rw [pushFold_expanded]; exact Nat.le_refl _)
+          (pushFold_exhausted _ st)
+          (by
+            rw [pushFold_expanded]
+            intro b hb
+            rcases hdone b hb with h | h
+            · exact .inl h
+            · exact .inr (h.mono hseen))
+        refine ⟨?_, k2, k3, k4, k5⟩
+        rw [k1, ← hspec, pushAS_dedupKeep]
+
+theorem filter_const_true (l : List Nat) : l.filter (fun _ => true) = l := List.filter_eq_self.2 (fun _ _ => rfl)
+
+theorem pushAS_all_nil (l : List Nat) : (l.foldl pushAS ([], [])).1 = dedupKeep l := by
+  rw [pushAS_all]
+  simp only [List.nil_append, List.contains_nil, Bool.not_false]
+  exact filter_const_true _
+
+theorem dedupKeep_idem (xs : List Nat) : dedupKeep (dedupKeep xs) = dedupKeep xs := by
+  rw [← pushAS_all_nil (dedupKeep xs), pushAS_dedupKeep, pushAS_all_nil]
+
+/-- `allBases_eq_spec`: wherever the old definition returns, the new one returns the same list -/
+theorem allBases_eq_of_spec (ig : IGraph) (f i : Nat) (l : List Nat) (h : allBasesSpec ig f i = some l) :
+    allBases ig (ig.length + 1) i = some l := by
+  have r := collect_spec ig f i l h (ig.length + 1) {} (fun _ => False) ⟨List.nodup_nil, by intro x hx; cases hx⟩
+    (by simp) (by intro b hb; cases hb) (by intro _ _ h; exact h)
+  unfold allBases
+  simp only [r.exh]
+  have h1 : (collect ig (ig.length + 1) i {}).all = (l.foldl pushAS ([], [])).1 := congrArg Prod.fst r.as
+  simp only [Bool.false_eq_true, if_false, Option.some.injEq]
+  rw [h1, pushAS_all_nil]
+  -- `l` is free of repetitions already (it is a `dedupKeep` image): `dedupKeep l = l`
+  cases f with
+  | zero => cases h
+  | succ f =>
+    rw [allBasesSpec_succ] at h
+    cases hX : specFold ig f (ibases ig i) (some (ibases ig i)) with
+    | none => rw [hX] at h; cases h
+    | some X =>
+      rw [hX] at h
+      simp only [Option.map_some, Option.some.injEq] at h
+      rw [← h]
+      exact dedupKeep_idem X
+
+/-! ### on acyclic inheritance graphs the old definition returns (within `n + 1` frames) -/
+
+theorem specFold_some (ig : IGraph) (fuel : Nat) (bs : List Nat) :
+    ∀ (a : List Nat), (∀ b ∈ bs, ∃ lb, allBasesSpec ig fuel b = some lb) → ∃ X, specFold ig fuel bs (some a) = some X := by
+  induction bs with
+  | nil => intro a _; exact ⟨a, rfl⟩
+  | cons b bs ih =>
+    intro a h
+    obtain ⟨lb, hlb⟩ := h b (List.mem_cons_self ..)
+    obtain ⟨X, hX⟩ := ih (a ++ lb) (fun x hx => h x (List.mem_cons_of_mem _ hx))
+    refine ⟨X, ?_⟩
+    unfold specFold at hX ⊢
+    rw [List.foldl_cons, hlb]
+    exact hX
+
+theorem ibases_of_ge (ig : IGraph) (i : Nat) (h : ig.length ≤ i) : ibases ig i = [] := by
+  unfold ibases
+  rw [List.getD_eq_getElem?_getD, List.getElem?_eq_none h]
+  rfl
+
+/-- the nested calls of the old definition follow a path of base references; on an acyclic graph such a path has no
+    repetition, so it is shorter than `n + 1` -/
+theorem allBasesSpec_some_of_acyclic (ig : IGraph) (hac : AcyclicE (igEdges ig)) :
+    ∀ (f cur : Nat) (anc : List Nat), anc.Nodup → (∀ x ∈ anc, x < ig.length) → cur ∈ anc →
+      (∀ x ∈ anc, x = cur ∨ EReach (igEdges ig) x cur) → ig.length + 1 ≤ anc.length + f →
+      ∃ l, allBasesSpec ig f cur = some l := by
+  intro f
+  induction f with
+  | zero =>
+    intro cur anc hnd hlt _ _ hlen
+    have := List.Nodup.length_le_of_subset hnd (fun x hx => List.mem_range.2 (hlt x hx))
+    simp only [List.length_range] at this
+    omega
+  | succ f ih =>
+    intro cur anc hnd hlt hcur hreach hlen
+    rw [allBasesSpec_succ]
+    have hall : ∀ b ∈ ibases ig cur, ∃ lb, allBasesSpec ig f b = some lb := by
+      intro b hb
+      have hstep : EStep (igEdges ig) cur b := (igEdges_step ig cur b).2 hb
+      have hnot : b ∉ anc := by
+        intro hm
+        rcases hreach b hm with rfl | h
+        · exact hac b (.single hstep)
+        · exact hac b (h.snoc hstep)
+      refine ih b (b :: anc) (List.nodup_cons.2 ⟨hnot, hnd⟩) ?_ (List.mem_cons_self ..) ?_
+        (by simp only [List.length_cons]; omega)
+      · intro x hx
+        rcases List.mem_cons.1 hx with rfl | hx
+        · exact mem_ibases_lt ig cur x hb
+        · exact hlt x hx
+      · intro x hx
+        rcases List.mem_cons.1 hx with rfl | hx
+        · exact .inl rfl
+        · rcases hreach x hx with rfl | h
+          · exact .inr (.single hstep)
+          · exact .inr (h.snoc hstep)
+    obtain ⟨X, hX⟩ := specFold_some ig f (ibases ig cur) (ibases ig cur) hall
+    rw [hX]
+    exact ⟨_, rfl⟩
+
+theorem allBasesSpec_total_of_acyclic (ig : IGraph) (hac : AcyclicE (igEdges ig)) (i : Nat) :
+    ∃ l, allBasesSpec ig (ig.length + 1) i = some l := by
+  by_cases hi : i < ig.length
+  · exact allBasesSpec_some_of_acyclic ig hac (ig.length + 1) i [i] (by simp) (by simpa using hi) (by simp)
+      (by simp) (by simp)
+  · rw [allBasesSpec_succ, ibases_of_ge ig i (by omega)]
+    exact ⟨_, rfl⟩
+
+/-- no interface is reported ⇒ the inheritance graph is acyclic -/
+theorem acyclic_of_no_ifaceLoopErrors (ig : IGraph) (h : ifaceLoopErrors ig = []) : AcyclicE (igEdges ig) := by
+  intro i hr
+  by_cases hi : i < ig.length
+  · have hs := (checkInterface_isSome_iff ig i).2 hr
+    cases hp : checkInterface ig i with
+    | none => rw [hp] at hs; cases hs
+    | some p =>
+      have := (mem_ifaceLoopErrors ig i p).2 ⟨hi, hp⟩
+      rw [h] at this; cases this
+  · obtain ⟨b, hb, _⟩ := hr.head
+    have := (igEdges_step ig i b).1 hb
+    rw [ibases_of_ge ig i (by omega)] at this
+    cases this
+
+/-! ## the alias gate: `revisits_anonymous_type` answers true iff a cycle of anonymous types can be reached -/
+
+theorem revisits_succ (ag : IGraph) (fuel x : Nat) (path : List Nat) :
+    revisits ag (fuel + 1) x path =
+      if path.contains x then true else (ibases ag x).any fun c => revisits ag fuel c (path ++ [x]) := rfl
+
+/-- a node lying on a cycle is `x` or below `x` -/
+def ReachesCycle (ag : IGraph) (x : Nat) : Prop :=
+  ∃ y, (y = x ∨ EReach (igEdges ag) x y) ∧ EReach (igEdges ag) y y
+
+theorem revisits_sound (ag : IGraph) :
+    ∀ (fuel x : Nat) (path : List Nat), (∀ p ∈ path, EReach (igEdges ag) p x) → revisits ag fuel x path = true →
+      ReachesCycle ag x := by
+  intro fuel
+  induction fuel with
+  | zero => intro _ _ _ h; cases h
+  | succ fuel ih =>
+    intro x path hpath h
+    rw [revisits_succ] at h
+    cases hc : path.contains x with
+    | true => exact ⟨x, .inl rfl, hpath x (by simpa using hc)⟩
+    | false =>
+      rw [hc] at h
+      simp only [Bool.false_eq_true, if_false, List.any_eq_true] at h
+      obtain ⟨c, hcm, hr⟩ := h
+      have hstep : EStep (igEdges ag) x c := (igEdges_step ag x c).2 hcm
+      obtain ⟨y, hy, hyy⟩ := ih c (path ++ [x]) (by
+        intro p hp
+        rcases List.mem_append.1 hp with hp | hp
+        · exact (hpath p hp).snoc hstep
+        · simp only [List.mem_singleton] at hp; subst hp; exact .single hstep) hr
+      refine ⟨y, .inr ?_, hyy⟩
+      rcases hy with rfl | hy
+      · exact .single hstep
+      · exact .cons hstep hy
+
+theorem revisits_complete (ag : IGraph) :
+    ∀ (fuel x : Nat) (path : List Nat), path.Nodup → (∀ p ∈ path, p < ag.length) → ag.length + 1 ≤ path.length + fuel →
+      ReachesCycle ag x → revisits ag fuel x path = true := by
+  intro fuel
+  induction fuel with
+  | zero =>
+    intro _ path hnd hlt hlen _
+    have := List.Nodup.length_le_of_subset hnd (fun p hp => List.mem_range.2 (hlt p hp))
+    simp only [List.length_range] at this
+    omega
+  | succ fuel ih =>
+    intro x path hnd hlt hlen hcyc
+    rw [revisits_succ]
+    cases hc : path.contains x with
+    | true => rfl
+    | false =>
+      simp only [Bool.false_eq_true, if_false, List.any_eq_true]
+      have hx : x ∉ path := by simpa using hc
+      -- the first step towards the cycle (or around it)
+      obtain ⟨y, hy, hyy⟩ := hcyc
+      have hnext : ∃ c, EStep (igEdges ag) x c ∧ ReachesCycle ag c := by
+        rcases hy with rfl | hy
+        · obtain ⟨c, hs, hcy⟩ := hyy.head
+          refine ⟨c, hs, y, ?_, hyy⟩
+          rcases hcy with rfl | hcy
+          · exact .inl rfl
+          · exact .inr hcy
+        · obtain ⟨c, hs, hcy⟩ := hy.head
+          refine ⟨c, hs, y, ?_, hyy⟩
+          rcases hcy with rfl | hcy
+          · exact .inl rfl
+          · exact .inr hcy
+      obtain ⟨c, hs, hcc⟩ := hnext
+      have hcm : c ∈ ibases ag x := (igEdges_step ag x c).1 hs
+      have hxlt : x < ag.length := by
+        by_cases h : x < ag.length
+        · exact h
+        · rw [ibases_of_ge ag x (by omega)] at hcm; cases hcm
+      refine ⟨c, hcm, ih c (path ++ [x]) ?_ ?_ ?_ hcc⟩
+      · rw [List.nodup_append]
+        refine ⟨hnd, by simp, ?_⟩
+        intro a ha b hb
+        simp only [List.mem_singleton] at hb
+        subst hb
+        intro hab; subst hab; exact hx ha
+      · intro p hp
+        rcases List.mem_append.1 hp with hp | hp
+        · exact hlt p hp
+        · simp only [List.mem_singleton] at hp; subst hp; exact hxlt
+      · simp only [List.length_append, List.length_singleton]; omega
+
+theorem revisits_iff (ag : IGraph) (x : Nat) : revisits ag (ag.length + 1) x [] = true ↔ ReachesCycle ag x :=
+  ⟨revisits_sound ag _ x [] (by intro p hp; cases hp),
+   revisits_complete ag _ x [] List.nodup_nil (by intro p hp; cases hp) (by simp)⟩
+
+theorem mem_aliasGate (ag : IGraph) (starts : List (Option Nat)) (a : Nat) :
+    a ∈ aliasGate ag starts ↔ a < starts.length ∧ ∃ x, starts.getD a none = some x ∧ ReachesCycle ag x := by
+  unfold aliasGate
+  simp only [List.mem_filter, List.mem_range]
+  constructor
+  · rintro ⟨ha, h⟩
+    cases hs : starts.getD a none with
+    | none => rw [hs] at h; cases h
+    | some x =>
+      rw [hs] at h
+      exact ⟨ha, x, rfl, (revisits_iff ag x).1 h⟩
+  · rintro ⟨ha, x, hs, hc⟩
+    refine ⟨ha, ?_⟩
+    rw [hs]
+    exact (revisits_iff ag x).2 hc
+
+/-! ## cost on cyclic graphs: still exponential (D-05d) — a dense DAG whose last node points back to the first -/
+
+/-- one iteration of the loop over the edges of `cur`, with a skip predicate -/
+def stepG (E : EdgeFn) (root : Nat) (skip : Nat → Bool) (fuel : Nat) (stack : List Entry) (cur : Nat) :
+    DState → Nat × Nat → DState :=
+  fun st e =>
+    if e.2 == root then report root (stack ++ [⟨e.2, cur, e.1⟩]) st.tick
+    else if skip e.2 then st.tick
+    else if stack.any (fun x => x.target == e.2) then st.tick
+    else dfsG E root skip fuel (stack ++ [⟨e.2, cur, e.1⟩]) e.2 st.tick
+
+theorem dfsG_succ' (E : EdgeFn) (root : Nat) (skip : Nat → Bool) (fuel : Nat) (stack : List Entry) (cur : Nat) (st : DState) :
+    dfsG E root skip (fuel + 1) stack cur st = (E cur).foldl (stepG E root skip fuel stack cur) st := rfl
+
+theorem stepG_steps_mono (E : EdgeFn) (root : Nat) (skip : Nat → Bool) (fuel : Nat) (stack : List Entry) (cur : Nat)
+    (st : DState) (e : Nat × Nat) (c : Nat) (h : c ≤ st.steps) : c ≤ (stepG E root skip fuel stack cur st e).steps := by
+  unfold stepG
+  split
+  · rw [report_steps, tick_steps]; omega
+  · split
+    · rw [tick_steps]; omega
+    · split
+      · rw [tick_steps]; omega
+      · exact dfs_steps_mono _ _ _ _ _ _ _ c (by rw [tick_steps]; omega)
+
+theorem foldG_steps_mono (E : EdgeFn) (root : Nat) (skip : Nat → Bool) (fuel : Nat) (stack : List Entry) (cur : Nat)
+    (es : List (Nat × Nat)) : ∀ (st : DState) (c : Nat), c ≤ st.steps →
+      c ≤ (es.foldl (stepG E root skip fuel stack cur) st).steps := by
+  induction es with
+  | nil => intro st c h; exact h
+  | cons e es ih => intro st c h; rw [List.foldl_cons]; exact ih _ c (stepG_steps_mono _ _ _ _ _ _ _ _ c h)
+
+/-- node `k` points to the nodes `k+1 … n-1` in this order, and then possibly to other nodes (back edges) -/
+def DenseBackOn (E : EdgeFn) (n : Nat) : Prop :=
+  ∀ k, k < n → ∃ es1 es2, E k = es1 ++ es2 ∧ es1.map (·.2) = List.range' (k + 1) (n - (k + 1))
+
+/-- when no node `0 < j < n` is skipped, the search rooted at `0` walks every increasing path: from node `k` at least
+    `2^(n-1-k) - 1` calls -/
+theorem denseBack_dfs_steps (E : EdgeFn) (n : Nat) (skip : Nat → Bool) (hE : DenseBackOn E n)
+    (hskip : ∀ j, 0 < j → j < n → skip j = false) :
+    ∀ (fuel : Nat) (stack : List Entry) (k m : Nat) (st : DState),
+      k + 1 + m = n → m < fuel → (∀ x ∈ stack, x.target ≤ k) →
+      st.steps + 2 ^ m ≤ (dfsG E 0 skip fuel stack k st).steps + 1 := by
+  intro fuel
+  induction fuel with
+  | zero => intro _ _ _ _ _ h; omega
+  | succ fuel ih =>
+    intro stack k m st hkm hfuel hstack
+    rw [dfsG_succ']
+    obtain ⟨es1, es2, hsplit, hmap⟩ := hE k (by omega)
+    rw [hsplit, List.foldl_append]
+    have key : ∀ (es : List (Nat × Nat)) (a m' : Nat) (st : DState),
+        es.map (·.2) = List.range' a m' → k < a → a + m' = n →
+        st.steps + 2 ^ m' ≤ (es.foldl (stepG E 0 skip fuel stack k) st).steps + 1 := by
+      intro es
+      induction es with
+      | nil =>
+        intro a m' st hmap _ _
+        have : m' = 0 := by
+          cases m' with
+          | zero => rfl
+          | succ q => simp [List.range'_succ] at hmap
+        subst this; simp
+      | cons e es ihes =>
+        intro a m' st hmap hka ham
+        cases m' with
+        | zero => simp at hmap
+        | succ q =>
+          rw [List.range'_succ, List.map_cons] at hmap
+          have he : e.2 = a := (List.cons.inj hmap).1
+          have hrest : es.map (·.2) = List.range' (a + 1) q := (List.cons.inj hmap).2
+          rw [List.foldl_cons]
+          have h1 : (e.2 == 0) = false := by
+            have : e.2 ≠ 0 := by omega
+            simpa using this
+          have h3 : skip e.2 = false := hskip e.2 (by omega) (by omega)
+          have h2 : stack.any (fun x => x.target == e.2) = false := by
+            rw [List.any_eq_false]
+            intro x hx
+            have := hstack x hx
+            have : x.target ≠ e.2 := by omega
+            simpa using this
+          have hstep : stepG E 0 skip fuel stack k st e =
+              dfsG E 0 skip fuel (stack ++ [⟨e.2, k, e.1⟩]) e.2 st.tick := by
+            simp only [stepG, h1, h2, h3, Bool.false_eq_true, if_false]
+          rw [hstep]
+          have hrec := ih (stack ++ [⟨e.2, k, e.1⟩]) e.2 q st.tick (by omega) (by omega)
+            (by
+              intro x hx
+              rcases List.mem_append.1 hx with hx | hx
+              · have := hstack x hx; omega
+              · simp only [List.mem_singleton] at hx; subst hx; exact Nat.le_refl _)
+          have hfold := ihes (a + 1) q (dfsG E 0 skip fuel (stack ++ [⟨e.2, k, e.1⟩]) e.2 st.tick) hrest (by omega) (by omega)
+          rw [tick_steps] at hrec
+          rw [Nat.pow_succ]
+          omega
+    have h1 := key es1 (k + 1) m st (by rw [hmap]; congr 1; omega) (by omega) (by omega)
+    have h2 := foldG_steps_mono E 0 skip fuel stack k es2 (es1.foldl (stepG E 0 skip fuel stack k) st) _ (Nat.le_refl _)
+    omega
+
+/-- D-05d, abstract form: a dense DAG on `n + 2` nodes whose last node points back to node `0` (everything lies on a
+    cycle through node `0`). Every node contains node `0`, so the skip rule never applies in the search rooted there, and
+    that search alone makes at least `2^(n+1) - 1` calls. -/
+theorem cyclic_steps_exponential_E (E : EdgeFn) (n : Nat) (hlt : ∀ a e, e ∈ E a → e.2 < n + 2)
+    (hE : DenseBackOn E (n + 2)) (hback : EStep E (n + 1) 0) :
+    2 ^ (n + 1) ≤ (detectE E (n + 2)).steps + 1 := by
+  rw [detectE_eq_detectG]
+  unfold detectG
+  rw [List.range_succ_eq_map, List.foldl_cons]
+  -- every node `0 < j < n + 2` reaches node 0 (through the last node)
+  have hreach : ∀ j, 0 < j → j < n + 2 → EReach E j 0 := by
+    intro j hj0 hjn
+    by_cases hj : j = n + 1
+    · subst hj; exact .single hback
+    · obtain ⟨es1, es2, hsplit, hmap⟩ := hE j hjn
+      have hm : (n + 1) ∈ es1.map (·.2) := by rw [hmap, List.mem_range'_1]; omega
+      obtain ⟨e, he, he2⟩ := List.mem_map.1 hm
+      have hstep : EStep E j (n + 1) := ⟨e.1, by
+        have : e = (e.1, n + 1) := by rw [← he2]
+        rw [← this, hsplit]; exact List.mem_append_left _ he⟩
+      exact .cons hstep (.single hback)
+  have hskip : ∀ j, 0 < j → j < n + 2 → skipDeps (dependsOn E (n + 2) 0) j = false := by
+    intro j hj0 hjn
+    have := (mem_dependsOn E (n + 2) hlt 0 j).2 ⟨hjn, hreach j hj0 hjn⟩
+    simp [skipDeps, this]
+  have h0 := denseBack_dfs_steps E (n + 2) _ hE hskip (n + 2) [] 0 (n + 1) {} (by omega) (by omega) (by intro x hx; cases hx)
+  have hmono : ∀ (rs : List Nat) (st : DState) (c : Nat), c ≤ st.steps →
+      c ≤ (rs.foldl (fun st r => dfsG E r (skipDeps (dependsOn E (n + 2) r)) (n + 2) [] r st) st).steps := by
+    intro rs
+    induction rs with
+    | nil => intro st c h; exact h
+    | cons r rs ih => intro st c h; rw [List.foldl_cons]; exact ih _ c (dfs_steps_mono E r _ (n + 2) [] r st c h)
+  have := hmono ((List.range (n + 1)).map Nat.succ) (dfsG E 0 (skipDeps (dependsOn E (n + 2) 0)) (n + 2) [] 0 {}) _ (Nat.le_refl _)
+  have hz : ({} : DState).steps = 0 := rfl
+  show 2 ^ (n + 1) ≤ (((List.range (n + 1)).map Nat.succ).foldl
+    (fun st r => dfsG E r (skipDeps (dependsOn E (n + 2) r)) (n + 2) [] r st)
+    (dfsG E 0 (skipDeps (dependsOn E (n + 2) 0)) (n + 2) [] 0 {})).steps + 1
+  omega
 
 end Slicec.Cyc
